@@ -5,26 +5,86 @@ From Coq Require Import ZifyBool ZifyN ZifyNat.
 
 (** * Well-formed trees (decidable) *)
 
-(** an expression the round trip of the operator core applies to, in canonical spelling *)
-Definition ewf (d : dialect) (e : expr) : bool :=
-  shapeb d e && wfb (lvl d) (flags_of d) e && lspine_gtb (lvl d) (lvl d K_UNKNOWN) e && canonical e.
+(** an expression the round trip of the operator core applies to, in canonical spelling, with no
+    construct outside the fragment at any position of its tokens ([frag_ok]) *)
+Definition ewfg (s : bool) (d : dialect) (e : expr) : bool :=
+  shapeb d e && wfb (lvl d) (flags_of d) e && lspine_gtb (lvl d) (lvl d K_UNKNOWN) e && canonical e &&
+  (negb s || frag_ok d (yield e)).
+Definition ewf := ewfg true.
 
 Definition optb {A} (f : A -> bool) (x : option A) : bool :=
   match x with Some a => f a | None => true end.
 
-Definition item_wf (d : dialect) (i : item) : bool :=
-  match i with
-  | IWild => true
-  | IExpr e => ewf d e
-  | IAlias e w => ewf d e && is_word w
+(** the subquery atoms of an expression's tokens are where the parser makes them: [SQ_BASE + i] exactly
+    as [( a )], not as [UNNEST ( a )] or [ANY ( ( a ) ..], [EX_BASE + i] not behind NOT (that is
+    [NEX_BASE + i]), numbered from the left; parentheses balance, and outside them there is no comma
+    and no FROM except in DISTINCT FROM (true of every printed expression).  [okts k i ts]: depth and
+    next index after [ts], from depth [k] and index [i] *)
+Definition in_sq (n : N) : bool := (SQ_BASE <=? n) && (n <? EX_BASE).
+Definition in_ex (n : N) : bool := (EX_BASE <=? n) && (n <? NEX_BASE).
+Definition is_not (w : kwd) : bool := match w with KNot => true | _ => false end.
+Definition small (i : nat) : bool := N.of_nat i <? 1000000.
+
+Fixpoint okts (k i : nat) (ts : list tok) : option (nat * nat) :=
+  match ts with
+  | [] => Some (k, i)
+  | TLParen :: r =>
+      match r with
+      | TAtom false n :: r1 =>
+          if in_sq n then
+            match r1 with
+            | TRParen :: r2 => if (n =? SQ_BASE + N.of_nat i) && small i then okts k (S i) r2 else None
+            | _ => None
+            end
+          else okts (S k) i r
+      | _ => okts (S k) i r
+      end
+  | TRParen :: r => match k with O => None | S k' => okts k' i r end
+  | TComma :: r => match k with O => None | S _ => okts k i r end
+  | TKw KDistinct :: r => match r with TKw KFrom :: r1 => okts k i r1 | _ => None end
+  | TKw KFrom :: r => match k with O => None | S _ => okts k i r end
+  | TKw w :: r =>
+      if match w, r with
+         | KUnnest, TLParen :: TAtom false n :: _ => in_sq n
+         | KAny, TLParen :: TLParen :: TAtom false n :: _ | KAll, TLParen :: TLParen :: TAtom false n :: _
+         | KSome, TLParen :: TLParen :: TAtom false n :: _ => in_sq n
+         | _, _ => false
+         end then None
+      else if is_not w && match r with TAtom false n :: _ => in_ex n | _ => false end then None
+      else okts k i r
+  | TAtom false n :: r =>
+      if n <? SQ_BASE then okts k i r
+      else if ((n =? EX_BASE + N.of_nat i) || (n =? NEX_BASE + N.of_nat i)) && small i then okts k (S i) r
+      else None
+  | _ :: r => okts k i r
   end.
 
-(** a table name: any word, except UNNEST where FROM UNNEST(..) is a construct of its own *)
-Definition name_ok (d : qdialect) (w : qtok) : bool :=
-  is_word w && negb (unnest_table d && qtok_eqb w (QE (TKw KUnnest))).
+Definition sq_ok (e : expr) (n : nat) : bool :=
+  match okts O O (yield e) with Some (O, m) => Nat.eqb m n | _ => false end.
 
-Definition tail_wf (d : dialect) (ob : list (expr * option bool)) (lim off : option expr) : bool :=
-  forallb (fun x => ewf d (fst x)) ob && optb (ewf d) lim && optb (ewf d) off.
+(** the parser takes [( .. )] in operand position (and after IN) for a subquery when SELECT or WITH
+    follows the parenthesis: the text of such a subquery does not start with a parenthesised operand
+    of a set operation; so for EXISTS where EXISTS may be a function name *)
+Fixpoint lead (b : setexpr) : bool :=
+  match b with BSelect _ _ _ _ _ _ => true | BSetOp _ _ l _ => lead l | _ => false end.
+Definition qlead (q : query) : bool :=
+  match q with Query w b _ _ _ => match w with Some _ => true | None => lead b end end.
+Fixpoint lead_ok (exfn : bool) (ts : list tok) (subs : list query) : bool :=
+  match ts with
+  | [] => true
+  | TAtom false n :: r =>
+      if n <? SQ_BASE then lead_ok exfn r subs
+      else match subs with
+           | q :: subs' => (qlead q || (negb exfn && negb (in_sq n))) && lead_ok exfn r subs'
+           | [] => false
+           end
+  | _ :: r => lead_ok exfn r subs
+  end.
+
+(** a table name: any word, except UNNEST where FROM UNNEST(..) is a construct of its own, and TABLE
+    (TABLE (..) is a table function) *)
+Definition name_ok (d : qdialect) (w : qtok) : bool :=
+  is_word w && negb (unnest_table d && qtok_eqb w (QE (TKw KUnnest))) && negb (qtok_eqb w (QK KTable)).
 
 Fixpoint blspine_gtb (p : N) (b : setexpr) : bool :=
   match b with
@@ -56,13 +116,6 @@ Definition cols_wf (d : qdialect) (cols : list qtok) : bool :=
 Definition ccols_wf (d : qdialect) (cols : list qtok) : bool :=
   match cols with [] => true | _ => cols_wf d cols end.
 
-Definition jop_wf (d : qdialect) (o : jop) : bool :=
-  match o with
-  | JOp _ (JOn e) => ewf (base d) e
-  | JOp _ (JUsing cols) => cols_wf d cols
-  | _ => true
-  end.
-
 (** a parenthesised join: what [parse_table_factor] builds a NestedJoin from (a table with at least
     one join, or a nested join), and its first table is not named by a word that starts a query
     (the parser tries a derived table first) *)
@@ -77,59 +130,81 @@ Definition with_names_ok (d : qdialect) (rc : bool) (ctes : list cte) : bool :=
               forallb (fun c => later_ok d (cte_name c)) r
   end.
 
-Fixpoint bwf (d : qdialect) (b : setexpr) {struct b} : bool :=
+(** [s = false]: without the conservative fragment test [frag_ok] on the expressions (what every
+    output of the parser is checked against, per case); the theorems are about [s = true] *)
+Fixpoint bwfg (s : bool) (d : qdialect) (b : setexpr) {struct b} : bool :=
   match b with
   | BSelect _ items from wh gb hv =>
       match items with [] => false | _ => true end &&
-      forallb (item_wf (base d)) items &&
-      forallb (twj_wf d) from && later_names_ok d from &&
-      optb (ewf (base d)) wh && forallb (ewf (base d)) gb && optb (ewf (base d)) hv
+      forallb (item_wfg s d) items &&
+      forallb (twj_wfg s d) from && later_names_ok d from &&
+      match wh with Some x => xwfg s d x | None => true end && forallb (xwfg s d) gb &&
+      match hv with Some x => xwfg s d x | None => true end
   | BSetOp o _ l r =>
-      blspine_gtb (sp_pinned o) r && brspine_geb (sp_pinned o) l && bwf d l && bwf d r
-  | BNested q => qwf d q
+      blspine_gtb (sp_pinned o) r && brspine_geb (sp_pinned o) l && bwfg s d l && bwfg s d r
+  | BNested q => qwfg s d q
+  | BValues rows => match rows with [] => false | _ => true end && forallb (vrow_wfg s d) rows
+  | BTable n => is_word n
   end
-with qwf (d : qdialect) (q : query) {struct q} : bool :=
+with vrow_wfg (s : bool) (d : qdialect) (r : vrow) {struct r} : bool :=
+  match r with
+  | VRow l => (match l with [] => values_empty d | _ => true end) && forallb (xwfg s d) l
+  end
+with qwfg (s : bool) (d : qdialect) (q : query) {struct q} : bool :=
   match q with
   | Query w b ob lim off =>
-      match w with Some x => with_wf d x | None => true end && bwf d b && tail_wf (base d) ob lim off
+      match w with Some x => with_wfg s d x | None => true end && bwfg s d b &&
+      (forallb (oelem_wfg s d) ob && match lim with Some x => xwfg s d x | None => true end &&
+       match off with Some x => xwfg s d x | None => true end)
   end
-with tref_wf (d : qdialect) (t : tref) {struct t} : bool :=
+with tref_wfg (s : bool) (d : qdialect) (t : tref) {struct t} : bool :=
   match t with
   | TTable n a => name_ok d n && optb is_word a
-  | TDerived q a => qwf d q && optb is_word a
-  | TNested x a => twj_wf d x && nested_ok x && optb is_word a
+  | TDerived q a => qwfg s d q && optb is_word a
+  | TNested x a => twj_wfg s d x && nested_ok x && optb is_word a
   end
-with twj_wf (d : qdialect) (t : twj) {struct t} : bool :=
-  match t with Twj r js => tref_wf d r && forallb (join_wf d) js end
-with join_wf (d : qdialect) (j : join) {struct j} : bool :=
-  match j with Join o r => jop_wf d o && tref_wf d r end
-with with_wf (d : qdialect) (w : withc) {struct w} : bool :=
-  match w with With rc ctes => with_names_ok d rc ctes && forallb (cte_wf d) ctes end
-with cte_wf (d : qdialect) (c : cte) {struct c} : bool :=
-  match c with Cte n cols q => is_word n && ccols_wf d cols && qwf d q end.
+with twj_wfg (s : bool) (d : qdialect) (t : twj) {struct t} : bool :=
+  match t with Twj r js => tref_wfg s d r && forallb (join_wfg s d) js end
+with join_wfg (s : bool) (d : qdialect) (j : join) {struct j} : bool :=
+  match j with Join o r => jop_wfg s d o && tref_wfg s d r end
+with jop_wfg (s : bool) (d : qdialect) (o : jop) {struct o} : bool :=
+  match o with JCross => true | JOp _ c => jcons_wfg s d c end
+with jcons_wfg (s : bool) (d : qdialect) (c : jcons) {struct c} : bool :=
+  match c with JOn x => xwfg s d x | JUsing cols => cols_wf d cols | _ => true end
+with with_wfg (s : bool) (d : qdialect) (w : withc) {struct w} : bool :=
+  match w with With rc ctes => with_names_ok d rc ctes && forallb (cte_wfg s d) ctes end
+with cte_wfg (s : bool) (d : qdialect) (c : cte) {struct c} : bool :=
+  match c with Cte n cols q => is_word n && ccols_wf d cols && qwfg s d q end
+with item_wfg (s : bool) (d : qdialect) (i : item) {struct i} : bool :=
+  match i with
+  | IWild => true
+  | IExpr x => xwfg s d x
+  | IAlias x w => xwfg s d x && is_word w
+  end
+with oelem_wfg (s : bool) (d : qdialect) (o : oelem) {struct o} : bool :=
+  match o with OElem x _ => xwfg s d x end
+with xwfg (s : bool) (d : qdialect) (x : xexpr) {struct x} : bool :=
+  match x with
+  | X e subs =>
+      ewfg s (base d) e && sq_ok e (length subs) && lead_ok (exists_fn d) (yield e) subs &&
+      forallb (qwfg s d) subs
+  end.
+
+Definition bwf := bwfg true.       Definition qwf := qwfg true.         Definition tref_wf := tref_wfg true.
+Definition twj_wf := twj_wfg true. Definition join_wf := join_wfg true. Definition jop_wf := jop_wfg true.
+Definition jcons_wf := jcons_wfg true. Definition with_wf := with_wfg true. Definition cte_wf := cte_wfg true.
+Definition item_wf := item_wfg true. Definition oelem_wf := oelem_wfg true. Definition xwf := xwfg true.
+Definition vrow_wf := vrow_wfg true.
 
 Definition wwf (d : qdialect) (w : option withc) : bool :=
   match w with Some x => with_wf d x | None => true end.
+Definition oxwf (d : qdialect) (x : option xexpr) : bool :=
+  match x with Some y => xwf d y | None => true end.
+Definition tail_wf (d : qdialect) (ob : list oelem) (lim off : option xexpr) : bool :=
+  forallb (oelem_wf d) ob && oxwf d lim && oxwf d off.
 
-(** * The syntactic fragment test on the printed tokens (conservative, decidable): at every
-    position where an expression can start the expression parser's view passes [frag_ok] (a position
-    is skipped when its token starts no expression, or when it is a name followed by [(]: the head of
-    a CTE with a column list - no expression of the fragment looks like that); with trailing commas
-    on no [, )]; no [* EXCEPT] / [* ILIKE] where these start a wildcard option *)
-Definition exempt (l : list qtok) : bool :=
-  match l with
-  | QE t :: r =>
-      negb (starts t) ||
-      match t, r with
-      | TAtom false _, QE TLParen :: _ => true
-      | _, _ => false
-      end
-  | _ => true
-  end.
-
-Fixpoint sfrag (d : dialect) (l : list qtok) : bool :=
-  (exempt l || frag_ok d (cut l)) && match l with [] => true | _ :: r => sfrag d r end.
-
+(** * The syntactic fragment test on the printed tokens (conservative, decidable): with trailing
+    commas on no [, )]; no [* EXCEPT] / [* ILIKE] where these start a wildcard option *)
 Fixpoint star_ok (d : qdialect) (l : list qtok) : bool :=
   match l with
   | [] => true
@@ -142,7 +217,7 @@ Fixpoint star_ok (d : qdialect) (l : list qtok) : bool :=
   end.
 
 Definition qfrag (d : qdialect) (l : list qtok) : bool :=
-  sfrag (base d) l && negb ((trailing d || proj_trailing d) && comma_rparen l) && star_ok d l.
+  negb ((trailing d || proj_trailing d) && comma_rparen l) && star_ok d l.
 
 (** what may follow a query: end of input, [)] or [;] *)
 Definition ender (rest : list qtok) : bool :=
@@ -153,8 +228,9 @@ Definition ender (rest : list qtok) : bool :=
   end.
 
 (** * Evaluation of one correspondence case (adds to [qcase_core]): 16 = the implementation accepted
-    the input but its tree (in canonical spelling) is not [qwf]; 32 = the printed tokens fail the
-    syntactic fragment test [qfrag] (counted, not an error: the theorem says nothing then) *)
+    the input but its tree (in canonical spelling) is not [qwfg false]; 32 = the conservative fragment
+    tests fail: [frag_ok] on some expression of the tree (the rest of [qwf]) or [qfrag] on the printed
+    tokens (counted, not an error: the theorem says nothing then) *)
 Definition lastn {A} (n : nat) (l : list A) : list A := skipn (length l - n) l.
 
 Definition qcase_full (d : qdialect) (ts : list qtok) (i : qires) : N :=
@@ -162,151 +238,88 @@ Definition qcase_full (d : qdialect) (ts : list qtok) (i : qires) : N :=
   if c =? 8 then 8 else
   match i with
   | QIOk q n _ =>
-      c + (if qwf d (qnorm q) then 0 else 16) +
-      (if qfrag d (qtoks (qnorm q) ++ lastn n ts) && ender (lastn n ts) then 0 else 32)
+      c + (if qwfg false d (qnorm q) then 0 else 16) +
+      (if qwf d (qnorm q) && qfrag d (qtoks (qnorm q) ++ lastn n ts) && ender (lastn n ts) then 0 else 32)
   | _ => c
   end.
 
 (** * Basic facts *)
-(** a token list with balanced parentheses: the expression parser's view passes over it *)
-Definition balanced (ts : list tok) : Prop :=
-  forall k post, cutd k (qe ts ++ post) = ts ++ cutd k post /\
-                 has_stopd k (qe ts ++ post) = has_stopd k post.
-
-Lemma bal_nil : balanced [].
-Proof. intros k post. split; reflexivity. Qed.
-Lemma bal_app a b : balanced a -> balanced b -> balanced (a ++ b).
-Proof.
-  intros Ha Hb k post. unfold qe. rewrite map_app, <- !app_assoc. fold (qe a) (qe b).
-  destruct (Ha k (qe b ++ post)) as [A1 A2]. destruct (Hb k post) as [B1 B2].
-  rewrite A1, A2, B1, B2. split; reflexivity.
-Qed.
-Lemma bal_cons t a : t <> TLParen -> t <> TRParen -> balanced a -> balanced (t :: a).
-Proof.
-  intros H1 H2 Ha k post. destruct (Ha k post) as [A1 A2]. cbn [qe map app].
-  destruct t; try congruence; cbn [cutd has_stopd]; fold (qe a); rewrite A1, A2; split; reflexivity.
-Qed.
-Lemma bal_paren a : balanced a -> balanced (TLParen :: a ++ [TRParen]).
-Proof.
-  intros Ha k post. cbn [qe map app cutd has_stopd]. unfold qe. rewrite map_app, <- app_assoc. fold (qe a).
-  destruct (Ha (S k) (QE TRParen :: post)) as [A1 A2]. cbn [map app]. rewrite A1, A2.
-  cbn [cutd has_stopd]. rewrite <- app_assoc. split; reflexivity.
-Qed.
-
-Ltac bal :=
-  repeat first [ assumption | apply bal_nil | apply bal_paren
-               | apply bal_cons; [discriminate|discriminate|] | apply bal_app ].
-
-Lemma commas_balanced l : Forall (fun e => balanced (yield e)) l -> balanced (commas l).
-Proof.
-  induction 1 as [|x r Hx Hr IH]; [apply bal_nil|].
-  destruct r as [|y r']; [exact Hx|]. change (commas (x :: y :: r')) with (yield x ++ TComma :: commas (y :: r')). bal.
-Qed.
-
-Lemma yield_balanced e : balanced (yield e).
-Proof.
-  induction e using expr_rect'.
-  all: try (rewrite yield_tuple); try (rewrite yield_inlist); cbn [yield].
-  all: try match goal with H : Forall _ _ |- _ => apply commas_balanced in H end.
-  all: try match goal with |- context [not_toks ?n] => destruct n end.
-  all: try match goal with |- context [like_toks ?k] => destruct k end.
-  all: try match goal with |- context [any_toks ?a] => destruct a end.
-  all: try match goal with |- context [match ?esc with Some _ => _ | None => _ end] => destruct esc as [[? ?]|] end.
-  all: try match goal with |- context [if ?c then TOp _ else TPre _] => destruct c end.
-  all: cbn [not_toks like_toks any_toks app]; bal.
-Qed.
-
-Lemma cut_yield e r : cut (qe (yield e) ++ r) = yield e ++ cut r.
-Proof. apply (yield_balanced e O r). Qed.
-Lemma has_stop_yield e r : has_stop (qe (yield e) ++ r) = has_stop r.
-Proof. apply (yield_balanced e O r). Qed.
-Lemma skipn_qe a r : skipn (length a) (qe a ++ r) = r.
-Proof. induction a as [|t a IH]; [reflexivity|]. exact IH. Qed.
-Lemma cut_nil_inv l : cut l = [] -> l = [].
-Proof. destruct l as [|[t| | |] r]; cbn [cut cutd]; intro H; try discriminate; try reflexivity. destruct t; discriminate. Qed.
-
-(** the token after a leading atom of a printed expression is not an opening parenthesis *)
-Lemma yield_atom_next e : forall s n x tl, yield e = TAtom s n :: x :: tl -> x <> TLParen.
-Proof.
-  assert (G : forall e' m rest s n x tl, m <> TLParen ->
-            (forall s n x tl, yield e' = TAtom s n :: x :: tl -> x <> TLParen) ->
-            yield e' ++ m :: rest = TAtom s n :: x :: tl -> x <> TLParen).
-  { intros e' m rest s n x tl Hm IH E. destruct (yield_starts e') as (t & tl0 & E0 & _). rewrite E0 in E.
-    cbn [app] in E. inversion E; subst t. destruct tl0 as [|y tl1].
-    - cbn [app] in H1. inversion H1; subst. exact Hm.
-    - cbn [app] in H1. inversion H1; subst. eapply IH. exact E0. }
-  induction e using expr_rect'; intros s0 n0 x0 tl0 E.
-  all: try (rewrite yield_tuple in E); try (rewrite yield_inlist in E); cbn [yield] in E.
-  all: try match type of E with context [not_toks ?n] => destruct n end.
-  all: try match type of E with context [like_toks ?k] => destruct k end.
-  all: try match type of E with context [if ?c then TOp _ else TPre _] => destruct c end.
-  all: cbn [not_toks like_toks app] in E.
-  all: try discriminate E.
-  all: refine (G _ _ _ _ _ _ _ _ _ E); [discriminate|assumption].
-Qed.
-
 Lemma ewf_parts d e : ewf d e = true ->
-  shape d e /\ wf (flags_of d) (lvl d) e /\ lspine_gt (lvl d) (lvl d K_UNKNOWN) e /\ canonical e = true.
+  shape d e /\ wf (flags_of d) (lvl d) e /\ lspine_gt (lvl d) (lvl d K_UNKNOWN) e /\ canonical e = true /\
+  frag_ok d (yield e) = true.
 Proof.
-  unfold ewf. intro H. repeat (apply andb_true_iff in H; destruct H as [H ?]).
-  repeat split; [apply shapeb_iff|apply wfb_iff|apply lspine_gtb_iff|]; assumption.
+  unfold ewf, ewfg. intro H. repeat (apply andb_true_iff in H; destruct H as [H ?]).
+  repeat split; [apply shapeb_iff|apply wfb_iff|apply lspine_gtb_iff| |]; assumption.
 Qed.
 Lemma ewf_ptoks d e : ewf d e = true -> ptoks e = yield e.
 Proof. intro H. apply ewf_parts in H. unfold ptoks. rewrite norm_canonical; tauto. Qed.
 
-(** what may follow an expression in the printed text: a token outside the expression alphabet,
-    [,], [)], FROM, or the end *)
+(** what may follow an expression in the printed text: [,], [)], FROM, the end, or a token outside
+    the expression alphabet other than SELECT, WITH, EXISTS *)
 Definition estop (post : list qtok) : bool :=
   match post with
   | [] => true
   | QE TComma :: _ | QE TRParen :: _ | QE (TKw KFrom) :: _ => true
   | QE _ :: _ => false
+  | QK KSelect :: _ | QK KWith :: _ | QK KExists :: _ => false
   | _ :: _ => true
   end.
 
-Lemma estop_np d post : estop post = true ->
-  np d (cut post) = lvl d K_UNKNOWN /\ is_escape_head (cut post) = false.
+(** the token the expression parser's view ends with, for such a follower *)
+Definition stoptok (post : list qtok) : list tok :=
+  match post with
+  | [] => []
+  | QE TComma :: _ => [TComma]
+  | QE TRParen :: _ => [TRParen]
+  | QE (TKw KFrom) :: _ => [TKw KFrom]
+  | _ :: _ => [TType 0]
+  end.
+
+Lemma stoptok_np d post : estop post = true ->
+  np d (stoptok post) = lvl d K_UNKNOWN /\ is_escape_head (stoptok post) = false.
 Proof.
-  destruct post as [|[t|k| |] r]; cbn [estop cut]; intro H; try (split; reflexivity).
+  destruct post as [|[t|k| |] r]; cbn [estop stoptok]; intro H; try (split; reflexivity).
   destruct t; try discriminate H; try (split; reflexivity).
   destruct k; try discriminate H. split; reflexivity.
 Qed.
 
-(** the start of a printed expression is a position the fragment test looks at *)
-Lemma exempt_yield e post : estop post = true -> exempt (qe (yield e) ++ post) = false.
+(** [frag_ok] does not mind the token the view ends with *)
+Definition quiet (t : tok) : bool :=
+  match t with TComma | TRParen | TKw _ | TType _ => true | _ => false end.
+
+Lemma lambda_ahead_snoc t : quiet t = true -> forall n r, (length r <= n)%nat ->
+  lambda_ahead (r ++ [t]) = lambda_ahead r.
 Proof.
-  intro Hs. destruct (yield_starts e) as (t & tl & E & St). rewrite E. cbn [qe map app exempt]. rewrite St.
-  cbn [negb orb]. destruct t; try reflexivity. destruct s; [reflexivity|].
-  destruct tl as [|x tl'].
-  - cbn [map app]. destruct post as [|[[]| | |] ?]; try reflexivity. discriminate Hs.
-  - pose proof (yield_atom_next e _ _ _ _ E) as Hx. cbn [map app]. destruct x; try reflexivity. congruence.
+  intros Ht. induction n as [|n IH]; intros r Hn.
+  - destruct r; [|cbn [length] in Hn; lia]. destruct t; try discriminate Ht; reflexivity.
+  - destruct r as [|a r]; [destruct t; try discriminate Ht; reflexivity|].
+    destruct a; try reflexivity. destruct s; try reflexivity.
+    destruct r as [|b r]; [destruct t; try discriminate Ht; reflexivity|].
+    destruct b; try reflexivity.
+    + (* ) *) destruct r as [|c r]; [destruct t; try discriminate Ht; reflexivity|]. reflexivity.
+    + (* , *) cbn [app lambda_ahead]. apply IH. cbn [length] in Hn. lia.
 Qed.
 
-Section Expr.
-  Variable bd : dialect.
-  Hypothesis U0 : lvl bd K_UNKNOWN = 0.
-  Hypothesis Hand : lvl bd K_AND <= lvl bd C_Between.
+Lemma frag_ok_snoc d t a : quiet t = true -> frag_ok d a = true -> frag_ok d (a ++ [t]) = true.
+Proof.
+  intros Ht. induction a as [|x r IH]; intro H.
+  - destruct t; try discriminate Ht; reflexivity.
+  - apply frag_ok_cons in H. destruct H as [Hb Hr]. cbn [app frag_ok]. rewrite (IH Hr), andb_true_r.
+    apply negb_true_iff. destruct x; try exact Hb.
+    + destruct s; [exact Hb|]. destruct r as [|y r']; [destruct t; try discriminate Ht; reflexivity|exact Hb].
+    + destruct r as [|y r']; [destruct t; try discriminate Ht; reflexivity|exact Hb].
+    + cbn [bad_here] in *. destruct (lambda d); [|reflexivity]. cbn [andb] in *.
+      rewrite (lambda_ahead_snoc t Ht (length r) r (le_n _)). exact Hb.
+Qed.
 
-  Lemma pexpr_rt e post :
-    ewf bd e = true -> frag_ok bd (yield e ++ cut post) = true -> estop post = true ->
-    pexpr bd (qe (yield e) ++ post) = Ok (e, post).
-  Proof.
-    intros He Hf Hs. destruct (ewf_parts _ _ He) as (Hsh & Hw & Hl & _).
-    destruct (estop_np bd _ Hs) as [Hn Hesc].
-    unfold pexpr. rewrite cut_yield.
-    rewrite (parse_expr_roundtrip bd U0 Hand e (cut post)); auto.
-    - cbn [bind]. rewrite has_stop_yield.
-      assert (Hc : has_stop post && Nat.eqb (length (cut post)) 0 = false).
-      { destruct (cut post) as [|c cr] eqn:E; [|cbn [length Nat.eqb]; apply andb_false_r].
-        apply cut_nil_inv in E. subst post. reflexivity. }
-      rewrite Hc. rewrite app_length.
-      replace (length (yield e) + length (cut post) - length (cut post))%nat with (length (yield e)) by lia.
-      rewrite skipn_qe. reflexivity.
-    - rewrite Hn, U0. apply rspine_ge_zero; assumption.
-    - rewrite Hn. lia.
-    - intros _. exact Hesc.
-  Qed.
-End Expr.
+Lemma frag_ok_stop d e post : estop post = true -> frag_ok d (yield e) = true ->
+  frag_ok d (yield e ++ stoptok post) = true.
+Proof.
+  intros Hs Hf. destruct post as [|[t|k| |] r]; cbn [stoptok]; try (rewrite app_nil_r; exact Hf);
+    try (apply frag_ok_snoc; [reflexivity|exact Hf]).
+  destruct t; try discriminate Hs; try (apply frag_ok_snoc; [reflexivity|exact Hf]).
+  destruct k; try discriminate Hs. apply frag_ok_snoc; [reflexivity|exact Hf].
+Qed.
 
 (** * The fragment test is closed under suffixes *)
 Lemma comma_rparen_cons t r : comma_rparen (t :: r) = false -> comma_rparen r = false.
@@ -317,11 +330,9 @@ Qed.
 
 Lemma qfrag_cons d t r : qfrag d (t :: r) = true -> qfrag d r = true.
 Proof.
-  unfold qfrag. intro H. apply andb_true_iff in H. destruct H as [H H3].
-  apply andb_true_iff in H. destruct H as [H1 H2].
-  cbn [sfrag] in H1. apply andb_true_iff in H1. destruct H1 as [_ H1].
+  unfold qfrag. intro H. apply andb_true_iff in H. destruct H as [H2 H3].
   cbn [star_ok] in H3. apply andb_true_iff in H3. destruct H3 as [_ H3].
-  rewrite H1, H3. cbn [andb]. rewrite andb_true_r.
+  rewrite H3. rewrite andb_true_r.
   destruct (trailing d || proj_trailing d); [|reflexivity]. cbn [andb negb] in *.
   apply negb_true_iff in H2. apply comma_rparen_cons in H2. rewrite H2. reflexivity.
 Qed.
@@ -329,18 +340,9 @@ Qed.
 Lemma qfrag_app d a b : qfrag d (a ++ b) = true -> qfrag d b = true.
 Proof. induction a as [|t a IH]; [auto|]. intro H. apply IH. eapply qfrag_cons. exact H. Qed.
 
-Lemma qfrag_frag d l : qfrag d l = true -> exempt l = false -> frag_ok (base d) (cut l) = true.
-Proof.
-  unfold qfrag. intros H Hx. apply andb_true_iff in H. destruct H as [H _].
-  apply andb_true_iff in H. destruct H as [H _]. destruct l; cbn [sfrag] in H.
-  - apply andb_true_iff in H. destruct H as [H _]. rewrite Hx in H. exact H.
-  - apply andb_true_iff in H. destruct H as [H _]. rewrite Hx in H. exact H.
-Qed.
-
 Lemma qfrag_trail d l : qfrag d l = true -> trailing d = true \/ proj_trailing d = true -> comma_rparen l = false.
 Proof.
-  unfold qfrag. intros H Ht. apply andb_true_iff in H. destruct H as [H _].
-  apply andb_true_iff in H. destruct H as [_ H]. apply negb_true_iff in H.
+  unfold qfrag. intros H Ht. apply andb_true_iff in H. destruct H as [H _]. apply negb_true_iff in H.
   destruct Ht as [Ht|Ht]; rewrite Ht in H; cbn [orb andb] in H; [exact H|].
   rewrite orb_true_r in H. exact H.
 Qed.
@@ -365,7 +367,7 @@ Definition dialect_ok (d : qdialect) : bool :=
   (lvl (base d) K_UNKNOWN =? 0) && (lvl (base d) K_AND <=? lvl (base d) C_Between) &&
   forallb (fun w => mem w (res_col d)) (QE (TKw KFrom) :: clause_words) &&
   forallb (fun w => mem w (res_tab d)) (clause_words ++ join_words) &&
-  forallb kw_only (res_col d).
+  forallb kw_only (res_col d) && negb (mem (QK KExists) (res_col d)).
 
 (** * Followers: the head of what comes after a clause of a printed query *)
 Definition hrank (post : list qtok) : nat :=
@@ -483,7 +485,7 @@ Section Followers.
     forallb (fun w => mem w (res_col d)) (QE (TKw KFrom) :: clause_words) = true /\
     forallb (fun w => mem w (res_tab d)) (clause_words ++ join_words) = true /\ forallb kw_only (res_col d) = true.
   Proof.
-    pose proof Hd as H. unfold dialect_ok in H.
+    pose proof Hd as H. unfold dialect_ok in H. apply andb_true_iff in H. destruct H as [H _].
     apply andb_true_iff in H. destruct H as [H H5]. apply andb_true_iff in H. destruct H as [H H4].
     apply andb_true_iff in H. destruct H as [H H3]. apply andb_true_iff in H. destruct H as [H1 H2].
     apply N.eqb_eq in H1. apply N.leb_le in H2. tauto.
@@ -503,6 +505,9 @@ Section Followers.
     - apply tok_eqb_eq in He. congruence.
     - f_equal. symmetry. apply internal_qkw_dec_bl. exact He.
   Qed.
+
+  Lemma d_exists : mem (QK KExists) (res_col d) = false.
+  Proof. pose proof Hd as H. unfold dialect_ok in H. apply andb_true_iff in H. destruct H as [_ H]. apply negb_true_iff in H. exact H. Qed.
 
   Lemma noalias_col post : (1 <= hrank post)%nat -> noalias (res_col d) post = true.
   Proof.
@@ -625,7 +630,7 @@ Qed.
 Lemma btoks_select dist items from wh gb hv :
   btoks (BSelect dist items from wh gb hv) =
   QK KSelect :: dist_toks dist ++ sepc (map item_toks items) ++ from_toks (map twj_toks from) ++
-  clause_toks (QK KWhere) wh ++ group_toks gb ++ clause_toks (QK KHaving) hv.
+  clause_toks (QK KWhere) (otoks wh) ++ group_toks (map xtoks gb) ++ clause_toks (QK KHaving) (otoks hv).
 Proof. reflexivity. Qed.
 Lemma btoks_nested q : btoks (BNested q) = QE TLParen :: qtoks q ++ [QE TRParen].
 Proof. reflexivity. Qed.
@@ -633,25 +638,62 @@ Lemma btoks_setop o q l r : btoks (BSetOp o q l r) = btoks l ++ setop_kw o :: qu
 Proof. reflexivity. Qed.
 Lemma qtoks_query w b ob lim off :
   qtoks (Query w b ob lim off) =
-  wtoks w ++ btoks b ++ order_toks ob ++ clause_toks (QK KLimit) lim ++ clause_toks (QK KOffset) off.
+  wtoks w ++ btoks b ++ order_toks (map oelem_toks ob) ++ clause_toks (QK KLimit) (otoks lim) ++
+  clause_toks (QK KOffset) (otoks off).
+Proof. reflexivity. Qed.
+Lemma xtoks_x e subs : xtoks (X e subs) = unfoldl (map qtoks subs) (ptoks e).
 Proof. reflexivity. Qed.
 
 Lemma bwf_select d dist items from wh gb hv :
   bwf d (BSelect dist items from wh gb hv) =
-  match items with [] => false | _ => true end && forallb (item_wf (base d)) items &&
+  match items with [] => false | _ => true end && forallb (item_wf d) items &&
   forallb (twj_wf d) from && later_names_ok d from &&
-  optb (ewf (base d)) wh && forallb (ewf (base d)) gb && optb (ewf (base d)) hv.
+  oxwf d wh && forallb (xwf d) gb && oxwf d hv.
 Proof. reflexivity. Qed.
 Lemma bwf_nested d q : bwf d (BNested q) = qwf d q.
 Proof. reflexivity. Qed.
+Lemma bwf_values d rows :
+  bwf d (BValues rows) = match rows with [] => false | _ => true end && forallb (vrow_wf d) rows.
+Proof. reflexivity. Qed.
+Lemma vrow_wf_row d l :
+  vrow_wf d (VRow l) = (match l with [] => values_empty d | _ => true end) && forallb (xwf d) l.
+Proof. reflexivity. Qed.
 Lemma qwf_query d w b ob lim off :
-  qwf d (Query w b ob lim off) = wwf d w && bwf d b && tail_wf (base d) ob lim off.
+  qwf d (Query w b ob lim off) = wwf d w && bwf d b && tail_wf d ob lim off.
+Proof. reflexivity. Qed.
+Lemma xwf_x d e subs :
+  xwf d (X e subs) = ewf (base d) e && sq_ok e (length subs) && lead_ok (exists_fn d) (yield e) subs &&
+                     forallb (qwf d) subs.
 Proof. reflexivity. Qed.
 
+Lemma with_wf_with d rc ctes : with_wf d (With rc ctes) = with_names_ok d rc ctes && forallb (cte_wf d) ctes.
+Proof. reflexivity. Qed.
+Lemma cte_wf_cte d n cols q : cte_wf d (Cte n cols q) = is_word n && ccols_wf d cols && qwf d q.
+Proof. reflexivity. Qed.
+Lemma tref_wf_table d n a : tref_wf d (TTable n a) = name_ok d n && optb is_word a.
+Proof. reflexivity. Qed.
+Lemma tref_wf_derived d q a : tref_wf d (TDerived q a) = qwf d q && optb is_word a.
+Proof. reflexivity. Qed.
+Lemma tref_wf_nested d x a : tref_wf d (TNested x a) = twj_wf d x && nested_ok x && optb is_word a.
+Proof. reflexivity. Qed.
+Lemma twj_wf_twj d r js : twj_wf d (Twj r js) = tref_wf d r && forallb (join_wf d) js.
+Proof. reflexivity. Qed.
+Lemma join_wf_join d o r : join_wf d (Join o r) = jop_wf d o && tref_wf d r.
+Proof. reflexivity. Qed.
+
+Definition oxlevel (x : option xexpr) : nat := match x with Some y => xlevel y | None => O end.
+
 Lemma blevel_select dist items from wh gb hv :
-  blevel (BSelect dist items from wh gb hv) = S (maxl (map twjlevel from)).
+  blevel (BSelect dist items from wh gb hv) =
+  S (Nat.max (maxl (map ilevel items)) (Nat.max (maxl (map twjlevel from))
+     (Nat.max (oxlevel wh) (Nat.max (maxl (map xlevel gb)) (oxlevel hv))))).
 Proof. reflexivity. Qed.
 Lemma blevel_nested q : blevel (BNested q) = S (qlevel q).
+Proof. reflexivity. Qed.
+Lemma qlevel_query w b ob lim off :
+  qlevel (Query w b ob lim off) =
+  Nat.max (match w with Some x => S (wlevel x) | None => O end)
+    (Nat.max (blevel b) (S (Nat.max (maxl (map oelevel ob)) (Nat.max (oxlevel lim) (oxlevel off))))).
 Proof. reflexivity. Qed.
 
 Lemma maxl_le l n : (maxl l <= n)%nat -> Forall (fun x => (x <= n)%nat) l.
@@ -664,17 +706,19 @@ Qed.
 
 (** the head of a printed body is SELECT or an opening parenthesis *)
 Definition bstart (post : list qtok) : bool :=
-  match post with QK KSelect :: _ | QE TLParen :: _ => true | _ => false end.
+  match post with QK KSelect :: _ | QE TLParen :: _ | QK KValues :: _ | QK KTable :: _ => true | _ => false end.
 
-Lemma btoks_head b : exists h r, btoks b = h :: r /\ (h = QK KSelect \/ h = QE TLParen).
+Lemma btoks_head b : exists h r, btoks b = h :: r /\ (h = QK KSelect \/ h = QE TLParen \/ h = QK KValues \/ h = QK KTable).
 Proof.
-  induction b as [dist items from wh gb hv|o q l IHl r IHr|q].
-  - rewrite btoks_select. eauto.
-  - destruct IHl as (h & r' & E & H). rewrite btoks_setop, E. cbn [app]. eauto.
-  - rewrite btoks_nested. eauto.
+  induction b as [dist items from wh gb hv|o q l IHl r IHr|q|rows|n].
+  - rewrite btoks_select. eexists; eexists; split; [reflexivity|auto].
+  - destruct IHl as (h & r' & E & H). rewrite btoks_setop, E. cbn [app]. eexists; eexists; split; [reflexivity|exact H].
+  - rewrite btoks_nested. eexists; eexists; split; [reflexivity|auto].
+  - cbn [btoks]. eexists; eexists; split; [reflexivity|auto].
+  - cbn [btoks]. eexists; eexists; split; [reflexivity|auto].
 Qed.
 Lemma btoks_bstart b X : bstart (btoks b ++ X) = true.
-Proof. destruct (btoks_head b) as (h & r & E & [H|H]); rewrite E; subst h; reflexivity. Qed.
+Proof. destruct (btoks_head b) as (h & r & E & [H|[H|[H|H]]]); rewrite E; subst h; reflexivity. Qed.
 
 Definition headpow (post : list qtok) : N :=
   match set_op_of post with Some (o, _) => sp_pinned o | None => 0 end.
@@ -720,11 +764,815 @@ Qed.
 Lemma comma_end_word res w r : is_word w = true -> comma_end res (w :: r) = mem w res.
 Proof. destruct w as [[]| | |]; cbn [is_word]; intro H; try discriminate H; reflexivity. Qed.
 
+Definition sqhead (r : list tok) : bool :=
+  match r with TAtom false n :: _ => in_sq n | _ => false end.
+Definition exhead (r : list tok) : bool :=
+  match r with TAtom false n :: _ => in_ex n | _ => false end.
+
+Lemma okts_lparen_plain k i r : sqhead r = false -> okts k i (TLParen :: r) = okts (S k) i r.
+Proof.
+  destruct r as [|t r']; [reflexivity|]. destruct t; try reflexivity. destruct s; [reflexivity|].
+  cbn [sqhead]. intro H. cbn [okts]. rewrite H. reflexivity.
+Qed.
+
+
+(** * Expressions without subquery atoms: [sq_ok] and [lead_ok] hold by themselves *)
+Definition nobig (ts : list tok) : bool := forallb (fun t => negb (is_big t)) ts.
+
+(** parentheses balance; outside them no comma and no FROM except in DISTINCT FROM *)
+Fixpoint okd (k : nat) (ts : list tok) : option nat :=
+  match ts with
+  | [] => Some k
+  | TLParen :: r => okd (S k) r
+  | TRParen :: r => match k with O => None | S k' => okd k' r end
+  | TComma :: r => match k with O => None | S _ => okd k r end
+  | TKw KDistinct :: r => match r with TKw KFrom :: r1 => okd k r1 | _ => None end
+  | TKw KFrom :: r => match k with O => None | S _ => okd k r end
+  | _ :: r => okd k r
+  end.
+
+Lemma small_not_sq n : (n <? SQ_BASE) = true -> in_sq n = false /\ in_ex n = false.
+Proof.
+  unfold in_sq, in_ex, SQ_BASE, EX_BASE. intro H. apply N.ltb_lt in H. split; apply andb_false_iff; left; apply N.leb_gt; lia.
+Qed.
+
+Lemma okts_okd : forall n ts, (length ts <= n)%nat -> nobig ts = true ->
+  forall k i, okts k i ts = option_map (fun k' => (k', i)) (okd k ts).
+Proof.
+  induction n as [|n IH]; intros ts Hn Hb k i.
+  - destruct ts; [reflexivity|cbn [length] in Hn; lia].
+  - destruct ts as [|t r]; [reflexivity|]. cbn [length] in Hn. cbn [nobig forallb] in Hb.
+    apply andb_true_iff in Hb. destruct Hb as [Ht Hb]. fold (nobig r) in Hb.
+    assert (IH' : forall r', (length r' <= length r)%nat -> nobig r' = true ->
+              forall k' i', okts k' i' r' = option_map (fun k'' => (k'', i')) (okd k' r'))
+      by (intros r' Hr' Hb' k' i'; apply IH; [lia|exact Hb']).
+    (* the look-ahead of [okts] finds no subquery atom *)
+    assert (Hla : forall r1 n0, r = TAtom false n0 :: r1 -> (n0 <? SQ_BASE) = true).
+    { intros r1 n0 ->. cbn [nobig forallb is_big] in Hb. apply andb_true_iff in Hb. destruct Hb as [Hb _].
+      apply negb_true_iff in Hb. apply negb_false_iff in Hb. exact Hb. }
+    assert (Hla2 : forall t1 r1 n0, r = t1 :: TAtom false n0 :: r1 -> (n0 <? SQ_BASE) = true).
+    { intros t1 r1 n0 ->. cbn [nobig forallb is_big] in Hb. apply andb_true_iff in Hb. destruct Hb as [_ Hb].
+      apply andb_true_iff in Hb. destruct Hb as [Hb _]. apply negb_true_iff in Hb. apply negb_false_iff in Hb. exact Hb. }
+    assert (Hla3 : forall t1 t2 r1 n0, r = t1 :: t2 :: TAtom false n0 :: r1 -> (n0 <? SQ_BASE) = true).
+    { intros t1 t2 r1 n0 ->. cbn [nobig forallb is_big] in Hb. apply andb_true_iff in Hb. destruct Hb as [_ Hb].
+      apply andb_true_iff in Hb. destruct Hb as [_ Hb].
+      apply andb_true_iff in Hb. destruct Hb as [Hb _]. apply negb_true_iff in Hb. apply negb_false_iff in Hb. exact Hb. }
+    destruct t; try (cbn [okts okd]; apply IH'; [apply le_n|exact Hb]).
+    + (* atom *) destruct s; [cbn [okts okd]; apply IH'; [apply le_n|exact Hb]|].
+      cbn [is_big] in Ht. apply negb_true_iff in Ht. apply negb_false_iff in Ht.
+      cbn [okts okd]. rewrite Ht. apply IH'; [apply le_n|exact Hb].
+    + (* keyword *)
+      destruct k0; cbn [okts okd is_not andb]; try (apply IH'; [apply le_n|exact Hb]).
+      * (* NOT *) destruct r as [|[[] n0| | | | | | | | | | | | |] r1]; cbv beta iota; try (apply IH'; [apply le_n|exact Hb]).
+        rewrite (proj2 (small_not_sq n0 (Hla _ _ eq_refl))). apply IH'; [apply le_n|exact Hb].
+      * (* DISTINCT *) destruct r as [|[] r1]; try reflexivity. destruct k0; try reflexivity.
+        apply IH'; [cbn [length]; lia|]. cbn [nobig forallb] in Hb. apply andb_true_iff in Hb. tauto.
+      * (* FROM *) destruct k; [reflexivity|]. apply IH'; [apply le_n|exact Hb].
+      * destruct r as [|[] [|[] [|[[] n0| | | | | | | | | | | | |] r1]]]; cbv beta iota; try (apply IH'; [apply le_n|exact Hb]).
+        rewrite (proj1 (small_not_sq n0 (Hla3 _ _ _ _ eq_refl))). apply IH'; [apply le_n|exact Hb].
+      * destruct r as [|[] [|[] [|[[] n0| | | | | | | | | | | | |] r1]]]; cbv beta iota; try (apply IH'; [apply le_n|exact Hb]).
+        rewrite (proj1 (small_not_sq n0 (Hla3 _ _ _ _ eq_refl))). apply IH'; [apply le_n|exact Hb].
+      * destruct r as [|[] [|[] [|[[] n0| | | | | | | | | | | | |] r1]]]; cbv beta iota; try (apply IH'; [apply le_n|exact Hb]).
+        rewrite (proj1 (small_not_sq n0 (Hla3 _ _ _ _ eq_refl))). apply IH'; [apply le_n|exact Hb].
+      * destruct r as [|[] [|[[] n0| | | | | | | | | | | | |] r1]]; cbv beta iota; try (apply IH'; [apply le_n|exact Hb]).
+        rewrite (proj1 (small_not_sq n0 (Hla2 _ _ _ eq_refl))). apply IH'; [apply le_n|exact Hb].
+    + (* ( *)
+      cbn [okd]. rewrite okts_lparen_plain; [apply IH'; [apply le_n|exact Hb]|].
+      destruct r as [|[[] n0| | | | | | | | | | | | |] r1]; try reflexivity. cbn [sqhead].
+      exact (proj1 (small_not_sq n0 (Hla _ _ eq_refl))).
+    + (* ) *) cbn [okts okd]. destruct k; [reflexivity|]. apply IH'; [apply le_n|exact Hb].
+    + (* , *) cbn [okts okd]. destruct k; [reflexivity|]. apply IH'; [apply le_n|exact Hb].
+Qed.
+
+(** [dbal ts]: [okd] passes over [ts] at every depth; [dbal1]: inside parentheses *)
+Definition dbal (ts : list tok) : Prop := forall k r, okd k (ts ++ r) = okd k r.
+Definition dbal1 (ts : list tok) : Prop := forall k r, okd (S k) (ts ++ r) = okd (S k) r.
+
+Lemma dbal_dbal1 a : dbal a -> dbal1 a.
+Proof. intros H k r. apply H. Qed.
+Lemma dbal_nil : dbal [].
+Proof. intros k r. reflexivity. Qed.
+Lemma dbal_app a b : dbal a -> dbal b -> dbal (a ++ b).
+Proof. intros Ha Hb k r. rewrite <- app_assoc, Ha, Hb. reflexivity. Qed.
+Lemma dbal1_app a b : dbal1 a -> dbal1 b -> dbal1 (a ++ b).
+Proof. intros Ha Hb k r. rewrite <- app_assoc, Ha, Hb. reflexivity. Qed.
+Definition dplain (t : tok) : bool :=
+  match t with
+  | TLParen | TRParen | TComma | TKw KDistinct | TKw KFrom => false
+  | _ => true
+  end.
+Lemma dbal_cons t a : dplain t = true -> dbal a -> dbal (t :: a).
+Proof.
+  intros Ht Ha k r. cbn [app]. destruct t; try discriminate Ht; cbn [okd]; try apply Ha.
+  destruct k0; try discriminate Ht; apply Ha.
+Qed.
+Lemma dbal_df a : dbal a -> dbal (TKw KDistinct :: TKw KFrom :: a).
+Proof. intros Ha k r. cbn [app okd]. apply Ha. Qed.
+Lemma dbal_paren a : dbal1 a -> dbal (TLParen :: a ++ [TRParen]).
+Proof. intros Ha k r. cbn [app okd]. rewrite <- app_assoc, Ha. reflexivity. Qed.
+Lemma dbal1_comma a : dbal1 a -> dbal1 (TComma :: a).
+Proof. intros Ha k r. cbn [app okd]. apply Ha. Qed.
+
+Lemma commas_dbal1 l : Forall (fun e => dbal (yield e)) l -> dbal1 (commas l).
+Proof.
+  induction 1 as [|x r Hx Hr IH]; [intros k r; reflexivity|].
+  destruct r as [|y r']; [apply dbal_dbal1; exact Hx|].
+  change (commas (x :: y :: r')) with (yield x ++ TComma :: commas (y :: r')).
+  apply dbal1_app; [apply dbal_dbal1; exact Hx|apply dbal1_comma; exact IH].
+Qed.
+
+Ltac dbal :=
+  repeat match goal with
+  | |- dbal1 (yield _) => apply dbal_dbal1
+  | |- dbal [] => apply dbal_nil
+  | |- dbal (yield _) => assumption
+  | |- dbal (TKw KDistinct :: TKw KFrom :: _) => apply dbal_df
+  | |- dbal (TLParen :: _ ++ [TRParen]) => apply dbal_paren
+  | |- dbal (_ :: _) => apply dbal_cons; [reflexivity|]
+  | |- dbal (_ ++ _) => apply dbal_app
+  end.
+
+Lemma yield_dbal d e : shape d e -> dbal (yield e).
+Proof.
+  induction e using expr_rect'; intro Hs.
+  all: try (destruct Hs as [Hn Hs]); try (cbv zeta in Hs).
+  all: try (rewrite yield_tuple); try (rewrite yield_inlist); cbn [yield].
+  all: try match goal with |- context [not_toks ?n] => destruct n end.
+  all: try match goal with |- context [like_toks ?k] => destruct k end.
+  all: try match goal with |- context [any_toks ?a] => destruct a end.
+  all: try match goal with |- context [match ?esc with Some _ => _ | None => _ end] => destruct esc as [[? ?]|] end.
+  all: try match goal with |- context [if ?c then TOp _ else TPre _] => destruct c end.
+  all: cbn [not_toks like_toks any_toks app].
+  all: repeat match goal with
+       | IH : shape _ ?x -> _, Hs : shape _ ?x |- _ => specialize (IH Hs)
+       | Hs : _ /\ _ |- _ => destruct Hs
+       end.
+  all: dbal.
+  all: try match goal with |- dbal1 (commas _) => apply commas_dbal1 end.
+  all: try match goal with
+       | H : Forall _ ?l |- Forall _ ?l =>
+           match goal with
+           | Hl : _ |- _ => apply shape_all in Hl; rewrite Forall_forall in *; intros x Hin; apply H; [exact Hin|apply Hl; exact Hin]
+           end
+       end.
+  - (* any / all *)
+    cbn [node_ok] in Hn. apply andb_true_iff in Hn. destruct Hn as [_ Hq'].
+    apply dbal_cons; [destruct q; try discriminate Hq'; reflexivity|]. dbal.
+  - (* is *) cbn [node_ok] in Hn. apply dbal_cons; [destruct w; try discriminate Hn; reflexivity|apply dbal_nil].
+  - cbn [node_ok] in Hn. apply dbal_cons; [destruct w; try discriminate Hn; reflexivity|apply dbal_nil].
+Qed.
+
+Lemma nobig_lead exfn ts : nobig ts = true -> lead_ok exfn ts [] = true.
+Proof.
+  induction ts as [|t r IH]; [reflexivity|]. cbn [nobig forallb]. intro H. apply andb_true_iff in H. destruct H as [Ht Hr].
+  destruct t; try (cbn [lead_ok]; apply IH; exact Hr). destruct s; [cbn [lead_ok]; apply IH; exact Hr|].
+  cbn [is_big] in Ht. apply negb_true_iff in Ht. apply negb_false_iff in Ht. cbn [lead_ok]. rewrite Ht. apply IH. exact Hr.
+Qed.
+
+(** an expression without subquery atoms is well formed as soon as the operator core accepts it *)
+Theorem xwf_plain d e : nobig (yield e) = true -> xwf d (X e []) = ewf (base d) e.
+Proof.
+  intro Hb. rewrite xwf_x. cbn [length forallb]. rewrite (nobig_lead _ _ Hb), !andb_true_r.
+  destruct (ewf (base d) e) eqn:E; [|reflexivity]. cbn [andb].
+  destruct (ewf_parts _ _ E) as (Hs & _). unfold sq_ok.
+  rewrite (okts_okd _ (yield e) (le_n _) Hb). pose proof (yield_dbal _ _ Hs O []) as Hd. rewrite app_nil_r in Hd.
+  rewrite Hd. reflexivity.
+Qed.
+
 (** * The round trip, one nesting level at a time *)
+Lemma lead_qstart b : lead b = true -> forall X, is_qstart (btoks b ++ X) = true.
+Proof.
+  induction b as [dist items from wh gb hv|o q l IHl r IHr|q|rows|n]; cbn [lead]; intros H X.
+  - reflexivity.
+  - rewrite btoks_setop, <- app_assoc. apply IHl. exact H.
+  - discriminate H.
+  - discriminate H.
+  - discriminate H.
+Qed.
+Lemma qlead_qstart q X : qlead q = true -> is_qstart (qtoks q ++ X) = true.
+Proof.
+  destruct q as [w b ob lim off]. rewrite qtoks_query. cbn [qlead]. destruct w as [[rc ctes]|].
+  - intros _. reflexivity.
+  - cbn [wtoks app]. intro H. rewrite <- app_assoc. apply lead_qstart. exact H.
+Qed.
+
+Definition fpre (V : list (tok * list qtok)) (sl : list query) (F : folded) : folded :=
+  {| fv := V ++ fv F; fsubs := sl ++ fsubs F; fstop := fstop F; ffuel := ffuel F |}.
+Lemma fpre_nil F : fpre [] [] F = F.
+Proof. destruct F; reflexivity. Qed.
+
 Section RoundTrip.
   Variable d : qdialect.
   Hypothesis Hd : dialect_ok d = true.
   Notation bd := (base d).
+
+  (** ** one level: the recursive calls are correct one level down *)
+  Variable f : nat.
+  Variable recq : list qtok -> res (query * list qtok).
+  Variable recb : N -> list qtok -> res (setexpr * list qtok).
+  Variable rect : list qtok -> res (twj * list qtok).
+  Hypothesis Hq : forall q post,
+    qwf d q = true -> (qlevel q <= f)%nat -> ender post = true -> qfrag d (qtoks q ++ post) = true ->
+    recq (qtoks q ++ post) = Ok (q, post).
+
+  Notation foldq := (fold recq (exists_fn d)).
+  Definition Qok (q : query) : Prop := qwf d q = true /\ (qlevel q <= f)%nat.
+
+  (** ** the expression parser's view of printed tokens *)
+  (** the view of the printed [ts] (subqueries [sl]) followed by [post], from depth [k] and index [i]:
+      the tokens [ts] themselves, then the view of [post] *)
+  Definition folds (k i : nat) (sl : list query) (ts : list tok) (post : list qtok) (k' : nat) : Prop :=
+    exists V m, (m <= length (unfoldl (map qtoks sl) ts))%nat /\ map fst V = ts /\
+      (ts <> [] -> exists V0 t, V = V0 ++ [(t, post)]) /\
+      forall g0, foldq (m + g0) k i (unfoldl (map qtoks sl) ts ++ post)
+                 = fpre V sl (foldq g0 k' (i + length sl) post).
+
+  Lemma folds_nil k i post : folds k i [] [] post k.
+  Proof.
+    exists [], O. repeat split; cbn [unfoldl map length app]; try lia; try congruence.
+    intro g0. rewrite fpre_nil, PeanoNat.Nat.add_0_r. reflexivity.
+  Qed.
+
+  Lemma folds_step t k i k2 sl r post k' :
+    (forall g rest, rest = unfoldl (map qtoks sl) r ++ post ->
+                    foldq (S g) k i (QE t :: rest) = fcons t rest (foldq g k2 i rest)) ->
+    unfoldl (map qtoks sl) (t :: r) = QE t :: unfoldl (map qtoks sl) r ->
+    folds k2 i sl r post k' -> folds k i sl (t :: r) post k'.
+  Proof.
+    intros Hstep Hu (V & m & Hm & Hmap & Hlast & Hfold).
+    exists ((t, unfoldl (map qtoks sl) r ++ post) :: V), (S m). rewrite Hu. repeat split.
+    - cbn [length]. lia.
+    - cbn [map fst]. rewrite Hmap. reflexivity.
+    - intros _. destruct r as [|t2 r2].
+      + destruct V; [|discriminate Hmap]. exists [], t. reflexivity.
+      + destruct (Hlast ltac:(discriminate)) as (V0 & t0 & E). exists ((t, unfoldl (map qtoks sl) (t2 :: r2) ++ post) :: V0), t0.
+        rewrite E. reflexivity.
+    - intro g0. cbn [plus app]. rewrite (Hstep _ _ eq_refl), Hfold. reflexivity.
+  Qed.
+
+  (** *** what the look-ahead of [fold] finds in printed tokens *)
+  Lemma okts_sq_atom k i n r : in_sq n = true -> okts k i (TAtom false n :: r) = None.
+  Proof.
+    unfold in_sq, SQ_BASE, EX_BASE. intro H. apply andb_true_iff in H. destruct H as [H1 H2].
+    apply N.leb_le in H1. apply N.ltb_lt in H2. cbn [okts].
+    assert (E1 : n <? SQ_BASE = false) by (unfold SQ_BASE; apply N.ltb_ge; lia). rewrite E1.
+    assert (E2 : (n =? EX_BASE + N.of_nat i) = false) by (unfold EX_BASE; apply N.eqb_neq; lia).
+    assert (E3 : (n =? NEX_BASE + N.of_nat i) = false) by (unfold NEX_BASE; apply N.eqb_neq; lia).
+    rewrite E2, E3. reflexivity.
+  Qed.
+
+  (** the atom of an EXISTS: its printed tokens *)
+  Lemma okts_big_atom k i n r x : (n <? SQ_BASE) = false -> okts k i (TAtom false n :: r) = Some x ->
+    (n <? EX_BASE) = false /\ small i = true /\
+    (n = EX_BASE + N.of_nat i \/ n = NEX_BASE + N.of_nat i) /\ okts k (S i) r = Some x.
+  Proof.
+    intros E H. cbn [okts] in H. rewrite E in H.
+    destruct (((n =? EX_BASE + N.of_nat i) || (n =? NEX_BASE + N.of_nat i)) && small i) eqn:E2; [|discriminate H].
+    apply andb_true_iff in E2. destruct E2 as [E2 E3]. apply orb_true_iff in E2.
+    repeat split; auto.
+    - apply N.ltb_ge. unfold EX_BASE, NEX_BASE in *. destruct E2 as [E2|E2]; apply N.eqb_eq in E2; lia.
+    - destruct E2 as [E2|E2]; apply N.eqb_eq in E2; auto.
+  Qed.
+
+  Lemma wrap_ex i s : small i = true -> wrap (EX_BASE + N.of_nat i) s = QK KExists :: QE TLParen :: s ++ [QE TRParen].
+  Proof.
+    unfold small, wrap, EX_BASE, NEX_BASE. intro H. apply N.ltb_lt in H.
+    assert (E1 : (2000000 + N.of_nat i <? 2000000) = false) by (apply N.ltb_ge; lia).
+    assert (E2 : (2000000 + N.of_nat i <? 3000000) = true) by (apply N.ltb_lt; lia).
+    rewrite E1, E2. reflexivity.
+  Qed.
+  Lemma wrap_nex i s : wrap (NEX_BASE + N.of_nat i) s = QE (TKw KNot) :: QK KExists :: QE TLParen :: s ++ [QE TRParen].
+  Proof.
+    unfold wrap, EX_BASE, NEX_BASE.
+    assert (E1 : (3000000 + N.of_nat i <? 2000000) = false) by (apply N.ltb_ge; lia).
+    assert (E2 : (3000000 + N.of_nat i <? 3000000) = false) by (apply N.ltb_ge; lia).
+    rewrite E1, E2. reflexivity.
+  Qed.
+  Lemma wrap_sq n s : in_sq n = true -> wrap n s = s.
+  Proof. unfold in_sq, wrap. intro H. apply andb_true_iff in H. destruct H as [_ H]. rewrite H. reflexivity. Qed.
+
+  (** the first printed token of [r] (then [post]) *)
+  Inductive uhead_spec (sl : list query) (r : list tok) (post : list qtok) : Prop :=
+  | UHpost : r = [] -> uhead_spec sl r post
+  | UHtok t r' : r = t :: r' -> is_big t = false ->
+      unfoldl (map qtoks sl) r ++ post = QE t :: (unfoldl (map qtoks sl) r' ++ post) -> uhead_spec sl r post
+  | UHex Z : unfoldl (map qtoks sl) r ++ post = QK KExists :: Z -> uhead_spec sl r post
+  | UHnex Z : unfoldl (map qtoks sl) r ++ post = QE (TKw KNot) :: QK KExists :: Z -> exhead r = false ->
+      uhead_spec sl r post
+  | UHatom n Z : unfoldl (map qtoks sl) r ++ post = QE (TAtom false n) :: Z -> uhead_spec sl r post.
+
+  Lemma uhead r : forall k i x sl post, okts k i r = Some x -> uhead_spec sl r post.
+  Proof.
+    intros k i x sl post H. destruct r as [|t r']; [apply UHpost; reflexivity|].
+    destruct t; try (eapply UHtok; [reflexivity|reflexivity|reflexivity]).
+    destruct s; [eapply UHtok; [reflexivity|reflexivity|reflexivity]|].
+    destruct (n <? SQ_BASE) eqn:E.
+    - eapply UHtok; [reflexivity|cbn [is_big]; rewrite E; reflexivity|cbn [unfoldl]; rewrite E; reflexivity].
+    - destruct (okts_big_atom _ _ _ _ _ E H) as (E1 & Hs & Hn & _).
+      destruct sl as [|q sl']; [eapply UHatom; cbn [unfoldl map]; rewrite E; reflexivity|].
+      destruct Hn as [Hn|Hn]; subst n.
+      + eapply UHex. cbn [unfoldl map]. rewrite E, wrap_ex by exact Hs. reflexivity.
+      + eapply UHnex; [cbn [unfoldl map]; rewrite E, wrap_nex; reflexivity|]. cbn [exhead]. unfold in_ex, EX_BASE, NEX_BASE.
+        apply andb_false_iff. right. apply N.ltb_ge. lia.
+  Qed.
+
+  Lemma look_qstart r k i x sl post : okts k i r = Some x -> estop post = true ->
+    is_qstart (unfoldl (map qtoks sl) r ++ post) = false.
+  Proof.
+    intros H Hs. destruct (uhead r k i x sl post H) as [E|t r' E Hb Eu|Z Eu|Z Eu _|n Z Eu]; try (rewrite Eu; reflexivity).
+    subst r. cbn [unfoldl app]. destruct post as [|[?|[]| |] ?]; try reflexivity; discriminate Hs.
+  Qed.
+
+  Definition nex (rest : list qtok) : bool :=
+    match rest with QK KExists :: QE TLParen :: _ => true | _ => false end.
+
+  Lemma look_nex r k i x sl post : okts k i r = Some x -> exhead r = false -> estop post = true ->
+    nex (unfoldl (map qtoks sl) r ++ post) = false.
+  Proof.
+    intros H Hx Hs. destruct r as [|t r']; [cbn [unfoldl app]; destruct post as [|[?|[]| |] ?]; try reflexivity; discriminate Hs|].
+    destruct t; try reflexivity. destruct s; [reflexivity|]. cbn [exhead] in Hx.
+    destruct (n <? SQ_BASE) eqn:E; [cbn [unfoldl]; rewrite E; reflexivity|].
+    destruct (okts_big_atom _ _ _ _ _ E H) as (E1 & Hsm & Hn & _).
+    cbn [unfoldl]. rewrite E. destruct sl as [|q sl']; [reflexivity|]. cbn [map].
+    destruct Hn as [Hn|Hn]; subst n.
+    - exfalso. unfold in_ex, EX_BASE, NEX_BASE, small in *. apply N.ltb_lt in Hsm.
+      apply andb_false_iff in Hx. destruct Hx as [Hx|Hx]; [apply N.leb_gt in Hx|apply N.ltb_ge in Hx]; lia.
+    - rewrite wrap_nex. reflexivity.
+  Qed.
+
+  Lemma look_lparen r k i x sl post Z : okts k i r = Some x -> estop post = true ->
+    unfoldl (map qtoks sl) r ++ post = QE TLParen :: Z ->
+    exists r', r = TLParen :: r' /\ Z = unfoldl (map qtoks sl) r' ++ post.
+  Proof.
+    intros H Hs Eq. destruct (uhead r k i x sl post H) as [E|t r' E Hb Eu|Z' Eu|Z' Eu _|n Z' Eu];
+      try (rewrite Eu in Eq; discriminate Eq).
+    - subst r. cbn [unfoldl app] in Eq. subst post. discriminate Hs.
+    - rewrite Eu in Eq. injection Eq as Et EZ. subst t r. exists r'. split; [reflexivity|]. symmetry. exact EZ.
+  Qed.
+
+  (** *** one step of [fold] *)
+  Definition plain (t : tok) : bool :=
+    match t with
+    | TAtom true _ | TType _ | TOp _ | TPre _ | TDoubleColon | TExcl | TLBracket | TRBracket | TColon | TOther => true
+    | _ => false
+    end.
+  Lemma fold_plain t g k i rest : plain t = true ->
+    foldq (S g) k i (QE t :: rest) = fcons t rest (foldq g k i rest).
+  Proof. destruct t; try discriminate; try reflexivity. destruct s; [reflexivity|discriminate]. Qed.
+
+  Lemma fold_small n g k i rest : (n <? SQ_BASE) = true ->
+    foldq (S g) k i (QE (TAtom false n) :: rest) = fcons (TAtom false n) rest (foldq g k i rest).
+  Proof. intro H. cbn [fold]. rewrite H. reflexivity. Qed.
+
+  Lemma fold_lparen g k i rest : is_qstart rest = false ->
+    foldq (S g) k i (QE TLParen :: rest) = fcons TLParen rest (foldq g (S k) i rest).
+  Proof. intro H. cbn [fold]. rewrite H. reflexivity. Qed.
+
+  Definition kw_plain (w : kwd) : bool :=
+    match w with KDistinct | KFrom | KNot | KUnnest | KAny | KAll | KSome => false | _ => true end.
+  Lemma fold_kw w g k i rest : kw_plain w = true ->
+    foldq (S g) k i (QE (TKw w) :: rest) = fcons (TKw w) rest (foldq g k i rest).
+  Proof. destruct w; try discriminate; reflexivity. Qed.
+
+  Lemma fold_not g k i rest : nex rest = false ->
+    foldq (S g) k i (QE (TKw KNot) :: rest) = fcons (TKw KNot) rest (foldq g k i rest).
+  Proof.
+    intro H. destruct rest as [|[t|[]| |] rest']; try reflexivity.
+    destruct rest' as [|[[]| | |] ?]; try reflexivity. discriminate H.
+  Qed.
+
+  Lemma fold_unsafe w g k i rest : sub_unsafe w rest = false -> kw_plain w = false ->
+    w <> KDistinct -> w <> KFrom -> w <> KNot ->
+    foldq (S g) k i (QE (TKw w) :: rest) = fcons (TKw w) rest (foldq g k i rest).
+  Proof. intros H _ H1 H2 H3. destruct w; try congruence; cbn [fold]; rewrite H; reflexivity. Qed.
+
+  (** one turn of [fold] reads the printed tokens [U1] of the tokens [ts1] (subqueries [sl1]) *)
+  Lemma folds_comp (V1 : list qtok -> list (tok * list qtok)) sl1 ts1 U1 k i k2 sl r post k' :
+    (forall g rest, rest = unfoldl (map qtoks sl) r ++ post ->
+       foldq (S g) k i (U1 ++ rest) = fpre (V1 rest) sl1 (foldq g k2 (i + length sl1) rest)) ->
+    unfoldl (map qtoks (sl1 ++ sl)) (ts1 ++ r) = U1 ++ unfoldl (map qtoks sl) r ->
+    (forall rest, map fst (V1 rest) = ts1) ->
+    (forall rest, exists V0 t, V1 rest = V0 ++ [(t, rest)]) ->
+    (1 <= length U1)%nat ->
+    folds k2 (i + length sl1) sl r post k' -> folds k i (sl1 ++ sl) (ts1 ++ r) post k'.
+  Proof.
+    intros Hstep Hu Hmap1 Hlast1 Hlen (V & m & Hm & Hmap & Hlast & Hfold).
+    set (rest := unfoldl (map qtoks sl) r ++ post).
+    exists (V1 rest ++ V), (S m). rewrite Hu. repeat split.
+    - rewrite app_length. lia.
+    - rewrite map_app, Hmap1, Hmap. reflexivity.
+    - intros _. destruct r as [|t2 r2].
+      + destruct V; [|discriminate Hmap]. rewrite app_nil_r. unfold rest. cbn [unfoldl app]. apply Hlast1.
+      + destruct (Hlast ltac:(discriminate)) as (V0 & t0 & E). exists (V1 rest ++ V0), t0.
+        rewrite E, app_assoc. reflexivity.
+    - intro g0. cbn [plus]. rewrite <- app_assoc. fold rest. rewrite (Hstep _ _ eq_refl), Hfold.
+      unfold fpre. cbn [fv fsubs fstop ffuel]. rewrite !app_assoc, app_length, PeanoNat.Nat.add_assoc. reflexivity.
+  Qed.
+
+  Lemma okts_mono : forall n ts, (length ts <= n)%nat -> forall k i x, okts k i ts = Some x -> (i <= snd x)%nat.
+  Proof.
+    induction n as [|n IH]; intros ts Hn k i x H.
+    - destruct ts; [|cbn [length] in Hn; lia]. cbn [okts] in H. injection H as <-. cbn [snd]. lia.
+    - destruct ts as [|t r]; [cbn [okts] in H; injection H as <-; cbn [snd]; lia|]. cbn [length] in Hn.
+      assert (IH' : forall r' k' i', (length r' <= length r)%nat -> okts k' i' r' = Some x -> (i' <= snd x)%nat)
+        by (intros r' k' i' Hr' H'; eapply (IH r'); [lia|exact H']).
+      destruct t; try (cbn [okts] in H; eapply IH'; [|exact H]; lia).
+      + (* atom *) destruct s; [cbn [okts] in H; eapply IH'; [|exact H]; lia|].
+        destruct (n0 <? SQ_BASE) eqn:E; [cbn [okts] in H; rewrite E in H; eapply IH'; [|exact H]; lia|].
+        destruct (okts_big_atom _ _ _ _ _ E H) as (_ & _ & _ & H'). apply IH' in H'; lia.
+      + (* keyword *) destruct k0; cbn [okts is_not] in H;
+          try (eapply IH'; [|exact H]; lia).
+        * (* NOT *) cbn [andb] in H. destruct (match r with TAtom false n0 :: _ => in_ex n0 | _ => false end); [discriminate H|].
+          eapply IH'; [|exact H]; lia.
+        * (* DISTINCT *) destruct r as [|[]]; try discriminate H. destruct k0; try discriminate H.
+          eapply IH'; [|exact H]. cbn [length]. lia.
+        * (* FROM *) destruct k; [discriminate H|]. eapply IH'; [|exact H]; lia.
+        * destruct (match r with TLParen :: TLParen :: TAtom false n0 :: _ => in_sq n0 | _ => false end); [discriminate H|].
+          eapply IH'; [|exact H]; lia.
+        * destruct (match r with TLParen :: TLParen :: TAtom false n0 :: _ => in_sq n0 | _ => false end); [discriminate H|].
+          eapply IH'; [|exact H]; lia.
+        * destruct (match r with TLParen :: TLParen :: TAtom false n0 :: _ => in_sq n0 | _ => false end); [discriminate H|].
+          eapply IH'; [|exact H]; lia.
+        * destruct (match r with TLParen :: TAtom false n0 :: _ => in_sq n0 | _ => false end); [discriminate H|].
+          eapply IH'; [|exact H]; lia.
+      + (* ( *) destruct (sqhead r) eqn:Sq.
+        * destruct r as [|t1 r1]; [discriminate Sq|]. destruct t1; try discriminate Sq. destruct s; try discriminate Sq.
+          rename n0 into n1. cbn [sqhead] in Sq. cbn [okts] in H. rewrite Sq in H.
+          destruct r1 as [|[] r2]; try discriminate H.
+          destruct ((n1 =? SQ_BASE + N.of_nat i) && small i); [|discriminate H].
+          apply IH' in H; [lia|cbn [length]; lia].
+        * rewrite okts_lparen_plain in H by exact Sq. eapply IH'; [|exact H]; lia.
+      + (* ) *) destruct k; [discriminate H|]. cbn [okts] in H. eapply IH'; [|exact H]; lia.
+      + (* , *) destruct k; [discriminate H|]. cbn [okts] in H. eapply IH'; [|exact H]; lia.
+  Qed.
+
+  (** UNNEST ( SELECT / ANY ( ( SELECT do not occur in the printed tokens *)
+  Lemma unnest_ok r k i x sl post :
+    okts k i r = Some x -> (match r with TLParen :: TAtom false n :: _ => in_sq n | _ => false end) = false ->
+    estop post = true -> sub_unsafe KUnnest (unfoldl (map qtoks sl) r ++ post) = false.
+  Proof.
+    intros H Hc Hs. destruct (sub_unsafe KUnnest (unfoldl (map qtoks sl) r ++ post)) eqn:E; [exfalso|reflexivity].
+    remember (unfoldl (map qtoks sl) r ++ post) as rest eqn:Er.
+    destruct rest as [|[[]| | |] r1]; try discriminate E. cbn [sub_unsafe] in E. symmetry in Er.
+    destruct (look_lparen _ _ _ _ _ _ _ H Hs Er) as (r' & -> & ->).
+    assert (Sq : sqhead r' = false) by (destruct r' as [|[[]| | | | | | | | | | | | |] ?]; try reflexivity; exact Hc).
+    rewrite okts_lparen_plain in H by exact Sq.
+    rewrite (look_qstart _ _ _ _ sl post H Hs) in E. discriminate E.
+  Qed.
+
+  Lemma quant_ok w r k i x sl post :
+    is_quant w = true -> okts k i r = Some x ->
+    (match r with TLParen :: TLParen :: TAtom false n :: _ => in_sq n | _ => false end) = false ->
+    lead_ok (exists_fn d) r sl = true -> estop post = true ->
+    sub_unsafe w (unfoldl (map qtoks sl) r ++ post) = false.
+  Proof.
+    intros Hw H Hc Hl Hs. destruct (sub_unsafe w (unfoldl (map qtoks sl) r ++ post)) eqn:E; [exfalso|reflexivity].
+    remember (unfoldl (map qtoks sl) r ++ post) as rest eqn:Er.
+    assert (exists r2, rest = QE TLParen :: QE TLParen :: r2 /\ is_qstart r2 = true) as (r2 & -> & E2).
+    { destruct w; try discriminate Hw; cbn [sub_unsafe] in E;
+        (destruct rest as [|[[]| | |] [|[[]| | |] r2]]; try discriminate E; exists r2; split; [reflexivity|exact E]). }
+    clear E. symmetry in Er.
+    destruct (look_lparen _ _ _ _ _ _ _ H Hs Er) as (r' & -> & Er').
+    destruct (sqhead r') eqn:Sq.
+    - (* ANY ( sq ): the subquery's text starts with SELECT / WITH *)
+      destruct r' as [|t1 r1]; [discriminate Sq|]. destruct t1; try discriminate Sq. destruct s; try discriminate Sq.
+      cbn [sqhead] in Sq. cbn [lead_ok] in Hl.
+      assert (E1 : n <? SQ_BASE = false).
+      { unfold in_sq in Sq. apply andb_true_iff in Sq. destruct Sq as [Sq _]. apply N.leb_le in Sq. apply N.ltb_ge. exact Sq. }
+      rewrite E1 in Hl. cbn [unfoldl] in Er'. rewrite E1 in Er'. destruct sl as [|q sl']; [discriminate Hl|].
+      cbn [map] in Er'. rewrite wrap_sq in Er' by exact Sq.
+      apply andb_true_iff in Hl. destruct Hl as [Hl _]. rewrite Sq in Hl. cbn [negb andb] in Hl. rewrite andb_false_r, orb_false_r in Hl.
+      pose proof (qlead_qstart q (unfoldl (map qtoks sl') r1 ++ post) Hl) as Hq'.
+      rewrite <- app_assoc in Er'. rewrite <- Er' in Hq'. discriminate Hq'.
+    - rewrite okts_lparen_plain in H by exact Sq. symmetry in Er'.
+      destruct (look_lparen _ _ _ _ _ _ _ H Hs Er') as (r'' & -> & ->).
+      assert (Sq2 : sqhead r'' = false) by (destruct r'' as [|[[]| | | | | | | | | | | | |] ?]; try reflexivity; exact Hc).
+      rewrite okts_lparen_plain in H by exact Sq2.
+      rewrite (look_qstart _ _ _ _ sl post H Hs) in E2. discriminate E2.
+  Qed.
+
+  Lemma Forall_tl {A} (P : A -> Prop) x l : Forall P (x :: l) -> P x /\ Forall P l.
+  Proof. intro H. inversion H; auto. Qed.
+
+  (** the view of the printed tokens of an expression is the expression's tokens *)
+  Lemma fold_rt : forall n ts, (length ts <= n)%nat -> forall k i x sl post,
+    okts k i ts = Some x -> snd x = (i + length sl)%nat -> Forall Qok sl ->
+    lead_ok (exists_fn d) ts sl = true -> estop post = true ->
+    qfrag d (unfoldl (map qtoks sl) ts ++ post) = true ->
+    folds k i sl ts post (fst x).
+  Proof.
+    induction n as [|n IH]; intros ts Hn k i x sl post H Hx Hsl Hl Hs Hf.
+    { destruct ts; [|cbn [length] in Hn; lia]. cbn [okts] in H. injection H as <-. cbn [snd fst] in *.
+      assert (sl = []) by (destruct sl; [reflexivity|cbn [length] in Hx; lia]). subst sl. apply folds_nil. }
+    destruct ts as [|t r].
+    { cbn [okts] in H. injection H as <-. cbn [snd fst] in *.
+      assert (sl = []) by (destruct sl; [reflexivity|cbn [length] in Hx; lia]). subst sl. apply folds_nil. }
+    cbn [length] in Hn.
+    assert (IH' : forall r' k' i' x' sl', (length r' <= length r)%nat ->
+              okts k' i' r' = Some x' -> snd x' = (i' + length sl')%nat -> Forall Qok sl' ->
+              lead_ok (exists_fn d) r' sl' = true -> qfrag d (unfoldl (map qtoks sl') r' ++ post) = true ->
+              folds k' i' sl' r' post (fst x'))
+      by (intros r' k' i' x' sl' Hr' ? ? ? ? ?; apply (IH r'); auto; lia).
+    (* a single ordinary token *)
+    assert (Hone : forall k2, okts k2 i r = Some x -> lead_ok (exists_fn d) r sl = true ->
+              unfoldl (map qtoks sl) (t :: r) = QE t :: unfoldl (map qtoks sl) r ->
+              (forall g rest, rest = unfoldl (map qtoks sl) r ++ post ->
+                 foldq (S g) k i (QE t :: rest) = fcons t rest (foldq g k2 i rest)) ->
+              folds k i sl (t :: r) post (fst x)).
+    { intros k2 H2 Hl2 Hu Hstep. eapply folds_step; [exact Hstep|exact Hu|].
+      apply IH'; auto. rewrite Hu in Hf. eapply qfrag_cons. exact Hf. }
+    destruct t.
+    - (* atom *)
+      destruct s; [apply (Hone k); [exact H|exact Hl|reflexivity|intros; apply fold_plain; reflexivity]|].
+      destruct (n0 <? SQ_BASE) eqn:E.
+      + apply (Hone k); [cbn [okts] in H; rewrite E in H; exact H|cbn [lead_ok] in Hl; rewrite E in Hl; exact Hl|
+                         cbn [unfoldl]; rewrite E; reflexivity|intros; apply fold_small; exact E].
+      + (* EXISTS / NOT EXISTS *)
+        destruct (okts_big_atom _ _ _ _ _ E H) as (E1 & Hsm & Hn0 & H').
+        pose proof (okts_mono _ r (le_n _) _ _ _ H') as Hmono.
+        destruct sl as [|q sl']; [cbn [length] in Hx; clear - Hx Hmono; lia|].
+        apply Forall_tl in Hsl. destruct Hsl as [[Hqw Hql] Hsl'].
+        cbn [lead_ok] in Hl. rewrite E in Hl. apply andb_true_iff in Hl. destruct Hl as [Hlq Hl'].
+        assert (Hex : exists_fn d && negb (is_qstart (qtoks q ++ QE TRParen :: unfoldl (map qtoks sl') r ++ post)) = false).
+        { destruct (exists_fn d); [|reflexivity]. cbn [negb andb orb] in *. rewrite orb_false_r in Hlq.
+          rewrite qlead_qstart by exact Hlq. reflexivity. }
+        cbn [unfoldl map] in Hf. rewrite E in Hf.
+        assert (Hgrp : exists_group recq (exists_fn d) (qtoks q ++ QE TRParen :: unfoldl (map qtoks sl') r ++ post)
+                       = Some (q, unfoldl (map qtoks sl') r ++ post) /\
+                       qfrag d (unfoldl (map qtoks sl') r ++ post) = true).
+        { assert (Hf2 : qfrag d (qtoks q ++ QE TRParen :: unfoldl (map qtoks sl') r ++ post) = true).
+          { destruct Hn0 as [Hn0|Hn0]; subst n0; [rewrite wrap_ex in Hf by exact Hsm|rewrite wrap_nex in Hf];
+              cbn [app] in Hf; rewrite <- !app_assoc in Hf; cbn [app] in Hf; repeat (apply qfrag_cons in Hf); exact Hf. }
+          split; [|apply qfrag_app in Hf2; eapply qfrag_cons; exact Hf2].
+          unfold exists_group. rewrite Hex. rewrite Hq; auto. }
+        destruct Hgrp as [Hgrp Hf'].
+        change (q :: sl') with ([q] ++ sl'). change (TAtom false n0 :: r) with ([TAtom false n0] ++ r).
+        destruct Hn0 as [Hn0|Hn0]; subst n0.
+        * eapply (folds_comp (fun rest => [(TAtom false (EX_BASE + N.of_nat i), rest)]) [q] _
+                    (QK KExists :: QE TLParen :: qtoks q ++ [QE TRParen]) k i k).
+          -- intros g rest ->. cbn [app]. rewrite <- app_assoc. cbn [app fold]. rewrite Hgrp.
+             cbn [length]. rewrite PeanoNat.Nat.add_1_r. reflexivity.
+          -- cbn [app unfoldl map]. rewrite E, wrap_ex by exact Hsm. cbn [app]. rewrite <- !app_assoc. reflexivity.
+          -- reflexivity.
+          -- intro rest. exists [], (TAtom false (EX_BASE + N.of_nat i)). reflexivity.
+          -- cbn [length]. apply le_n_S, PeanoNat.Nat.le_0_l.
+          -- cbn [length]. rewrite PeanoNat.Nat.add_1_r. apply IH'; auto. cbn [length] in Hx. clear - Hx. lia.
+        * eapply (folds_comp (fun rest => [(TAtom false (NEX_BASE + N.of_nat i), rest)]) [q] _
+                    (QE (TKw KNot) :: QK KExists :: QE TLParen :: qtoks q ++ [QE TRParen]) k i k).
+          -- intros g rest ->. cbn [app]. rewrite <- app_assoc. cbn [app fold]. rewrite Hgrp.
+             cbn [length]. rewrite PeanoNat.Nat.add_1_r. reflexivity.
+          -- cbn [app unfoldl map]. rewrite E, wrap_nex. cbn [app]. rewrite <- !app_assoc. reflexivity.
+          -- reflexivity.
+          -- intro rest. exists [], (TAtom false (NEX_BASE + N.of_nat i)). reflexivity.
+          -- cbn [length]. apply le_n_S, PeanoNat.Nat.le_0_l.
+          -- cbn [length]. rewrite PeanoNat.Nat.add_1_r. apply IH'; auto. cbn [length] in Hx. clear - Hx. lia.
+    - apply (Hone k); [exact H|exact Hl|reflexivity|intros; apply fold_plain; reflexivity].
+    - apply (Hone k); [exact H|exact Hl|reflexivity|intros; apply fold_plain; reflexivity].
+    - apply (Hone k); [exact H|exact Hl|reflexivity|intros; apply fold_plain; reflexivity].
+    - (* keyword *)
+      destruct (kw_plain k0) eqn:Kp.
+      + apply (Hone k); [destruct k0; try discriminate Kp; exact H|exact Hl|reflexivity|intros; apply fold_kw; exact Kp].
+      + destruct k0; try discriminate Kp.
+        * (* NOT *)
+          cbn [okts is_not andb] in H.
+          destruct (match r with TAtom false n0 :: _ => in_ex n0 | _ => false end) eqn:Ex; [discriminate H|].
+          apply (Hone k); [exact H|exact Hl|reflexivity|].
+          intros g rest ->. apply fold_not. eapply look_nex; eauto.
+        * (* DISTINCT FROM *)
+          cbn [okts] in H. destruct r as [|t2 r2]; [discriminate H|]. destruct t2; try discriminate H.
+          destruct k0; try discriminate H.
+          change (TKw KDistinct :: TKw KFrom :: r2) with ([TKw KDistinct; TKw KFrom] ++ r2). change sl with ([] ++ sl).
+          eapply (folds_comp (fun rest => [(TKw KDistinct, QE (TKw KFrom) :: rest); (TKw KFrom, rest)]) [] _
+                    [QE (TKw KDistinct); QE (TKw KFrom)] k i k).
+          -- intros g rest ->. cbn [app fold length]. rewrite PeanoNat.Nat.add_0_r. reflexivity.
+          -- reflexivity.
+          -- reflexivity.
+          -- intro rest. exists [(TKw KDistinct, QE (TKw KFrom) :: rest)], (TKw KFrom). reflexivity.
+          -- cbn [length]. apply le_n_S, PeanoNat.Nat.le_0_l.
+          -- cbn [length]. rewrite PeanoNat.Nat.add_0_r. cbn [unfoldl app] in Hf. do 2 apply qfrag_cons in Hf.
+             apply IH'; auto; try (cbn [length]; clear; lia).
+        * (* FROM inside parentheses *)
+          cbn [okts] in H. destruct k as [|k1]; [discriminate H|].
+          apply (Hone (S k1)); [exact H|exact Hl|reflexivity|intros; reflexivity].
+        * (* ANY *)
+          cbn [okts is_not andb] in H.
+          destruct (match r with TLParen :: TLParen :: TAtom false n0 :: _ => in_sq n0 | _ => false end) eqn:Cq; [discriminate H|].
+          apply (Hone k); [exact H|exact Hl|reflexivity|].
+          intros g rest ->. apply fold_unsafe; try discriminate; try reflexivity. eapply quant_ok; eauto.
+        * (* ALL *)
+          cbn [okts is_not andb] in H.
+          destruct (match r with TLParen :: TLParen :: TAtom false n0 :: _ => in_sq n0 | _ => false end) eqn:Cq; [discriminate H|].
+          apply (Hone k); [exact H|exact Hl|reflexivity|].
+          intros g rest ->. apply fold_unsafe; try discriminate; try reflexivity. eapply quant_ok; eauto.
+        * (* SOME *)
+          cbn [okts is_not andb] in H.
+          destruct (match r with TLParen :: TLParen :: TAtom false n0 :: _ => in_sq n0 | _ => false end) eqn:Cq; [discriminate H|].
+          apply (Hone k); [exact H|exact Hl|reflexivity|].
+          intros g rest ->. apply fold_unsafe; try discriminate; try reflexivity. eapply quant_ok; eauto.
+        * (* UNNEST *)
+          cbn [okts is_not andb] in H.
+          destruct (match r with TLParen :: TAtom false n0 :: _ => in_sq n0 | _ => false end) eqn:Cq; [discriminate H|].
+          apply (Hone k); [exact H|exact Hl|reflexivity|].
+          intros g rest ->. apply fold_unsafe; try discriminate; try reflexivity. eapply unnest_ok; eauto.
+    - (* ( *)
+      destruct (sqhead r) eqn:Sq.
+      + (* ( subquery ) *)
+        destruct r as [|t1 r1]; [discriminate Sq|]. destruct t1; try discriminate Sq. destruct s; try discriminate Sq.
+        cbn [sqhead] in Sq. cbn [okts] in H. rewrite Sq in H. destruct r1 as [|t2 r2]; [discriminate H|].
+        destruct t2; try discriminate H.
+        destruct ((n0 =? SQ_BASE + N.of_nat i) && small i) eqn:En; [|discriminate H].
+        apply andb_true_iff in En. destruct En as [En Hsm]. apply N.eqb_eq in En.
+        assert (E1 : n0 <? SQ_BASE = false).
+        { unfold in_sq in Sq. apply andb_true_iff in Sq. destruct Sq as [Sq' _]. apply N.leb_le in Sq'. apply N.ltb_ge. exact Sq'. }
+        pose proof (okts_mono _ r2 (le_n _) _ _ _ H) as Hmono.
+        destruct sl as [|q sl']; [cbn [length] in Hx; clear - Hx Hmono; lia|].
+        apply Forall_tl in Hsl. destruct Hsl as [[Hqw Hql] Hsl'].
+        cbn [lead_ok] in Hl. rewrite E1 in Hl. apply andb_true_iff in Hl. destruct Hl as [Hlq Hl'].
+        rewrite Sq in Hlq. cbn [negb] in Hlq. rewrite andb_false_r, orb_false_r in Hlq.
+        cbn [unfoldl map] in Hf. rewrite E1, wrap_sq in Hf by exact Sq. cbn [app] in Hf. rewrite <- app_assoc in Hf. cbn [app] in Hf.
+        apply qfrag_cons in Hf.
+        change (q :: sl') with ([q] ++ sl'). change (TLParen :: TAtom false n0 :: TRParen :: r2) with ([TLParen; TAtom false n0; TRParen] ++ r2).
+        eapply (folds_comp (fun rest => [(TLParen, qtoks q ++ QE TRParen :: rest); (TAtom false n0, QE TRParen :: rest); (TRParen, rest)])
+                  [q] _ (QE TLParen :: qtoks q ++ [QE TRParen]) k i k).
+        * intros g rest ->. cbn [app]. rewrite <- app_assoc. cbn [app fold].
+          rewrite qlead_qstart by exact Hlq. rewrite Hq; auto. subst n0.
+          cbn [length]. rewrite PeanoNat.Nat.add_1_r. reflexivity.
+        * cbn [app unfoldl map]. rewrite E1, wrap_sq by exact Sq. cbn [app]. rewrite <- !app_assoc. reflexivity.
+        * reflexivity.
+        * intro rest. exists [(TLParen, qtoks q ++ QE TRParen :: rest); (TAtom false n0, QE TRParen :: rest)], TRParen. reflexivity.
+        * cbn [length]. apply le_n_S, PeanoNat.Nat.le_0_l.
+        * cbn [length]. rewrite PeanoNat.Nat.add_1_r. apply IH'; auto; [cbn [length]; clear; lia|cbn [length] in Hx; clear - Hx; lia|].
+          apply qfrag_app in Hf. eapply qfrag_cons. exact Hf.
+      + rewrite okts_lparen_plain in H by exact Sq.
+        apply (Hone (S k)); [exact H|exact Hl|reflexivity|].
+        intros g rest ->. apply fold_lparen. eapply look_qstart; eauto.
+    - (* ) *)
+      cbn [okts] in H. destruct k as [|k1]; [discriminate H|].
+      apply (Hone k1); [exact H|exact Hl|reflexivity|intros; reflexivity].
+    - (* , *)
+      cbn [okts] in H. destruct k as [|k1]; [discriminate H|].
+      apply (Hone (S k1)); [exact H|exact Hl|reflexivity|intros; reflexivity].
+    - apply (Hone k); [exact H|exact Hl|reflexivity|intros; apply fold_plain; reflexivity].
+    - apply (Hone k); [exact H|exact Hl|reflexivity|intros; apply fold_plain; reflexivity].
+    - apply (Hone k); [exact H|exact Hl|reflexivity|intros; apply fold_plain; reflexivity].
+    - apply (Hone k); [exact H|exact Hl|reflexivity|intros; apply fold_plain; reflexivity].
+    - apply (Hone k); [exact H|exact Hl|reflexivity|intros; apply fold_plain; reflexivity].
+    - apply (Hone k); [exact H|exact Hl|reflexivity|intros; apply fold_plain; reflexivity].
+  Qed.
+
+  (** the atoms counted by [okts] are the subquery atoms *)
+  Lemma nsub_cons t r : nsub (t :: r) = ((if is_big t then 1 else 0) + nsub r)%nat.
+  Proof. unfold nsub. cbn [filter]. destruct (is_big t); reflexivity. Qed.
+
+  Lemma okts_count : forall n ts, (length ts <= n)%nat -> forall k i x, okts k i ts = Some x -> snd x = (i + nsub ts)%nat.
+  Proof.
+    induction n as [|n IH]; intros ts Hn k i x H.
+    - destruct ts; [|cbn [length] in Hn; lia]. cbn [okts] in H. injection H as <-. cbn [snd]. unfold nsub. cbn. lia.
+    - destruct ts as [|t r]; [cbn [okts] in H; injection H as <-; cbn [snd]; unfold nsub; cbn; lia|]. cbn [length] in Hn.
+      assert (IH' : forall r' k' i', (length r' <= length r)%nat -> okts k' i' r' = Some x -> snd x = (i' + nsub r')%nat)
+        by (intros r' k' i' Hr' H'; eapply (IH r'); [lia|exact H']).
+      rewrite nsub_cons.
+      destruct t; try (cbn [okts is_big] in *; erewrite IH'; [|apply le_n|exact H]; lia).
+      + (* atom *) destruct s; [cbn [okts is_big] in *; erewrite IH'; [|apply le_n|exact H]; lia|].
+        cbn [is_big]. destruct (n0 <? SQ_BASE) eqn:E; [cbn [okts] in H; rewrite E in H; erewrite IH'; [|apply le_n|exact H]; cbn [negb]; lia|].
+        destruct (okts_big_atom _ _ _ _ _ E H) as (_ & _ & _ & H'). erewrite IH'; [|apply le_n|exact H']. cbn [negb]. lia.
+      + (* keyword *) cbn [is_big]. destruct k0; cbn [okts is_not] in H;
+          try (erewrite IH'; [|apply le_n|exact H]; lia).
+        * cbn [andb] in H. destruct (match r with TAtom false n0 :: _ => in_ex n0 | _ => false end); [discriminate H|].
+          erewrite IH'; [|apply le_n|exact H]; lia.
+        * destruct r as [|[]]; try discriminate H. destruct k0; try discriminate H.
+          match type of H with okts ?k' ?i' ?r' = _ => rewrite (IH' r' k' i' ltac:(cbn [length]; lia) H) end.
+          rewrite nsub_cons. cbn [is_big]. lia.
+        * destruct k; [discriminate H|]. erewrite IH'; [|apply le_n|exact H]; lia.
+        * destruct (match r with TLParen :: TLParen :: TAtom false n0 :: _ => in_sq n0 | _ => false end); [discriminate H|].
+          erewrite IH'; [|apply le_n|exact H]; lia.
+        * destruct (match r with TLParen :: TLParen :: TAtom false n0 :: _ => in_sq n0 | _ => false end); [discriminate H|].
+          erewrite IH'; [|apply le_n|exact H]; lia.
+        * destruct (match r with TLParen :: TLParen :: TAtom false n0 :: _ => in_sq n0 | _ => false end); [discriminate H|].
+          erewrite IH'; [|apply le_n|exact H]; lia.
+        * destruct (match r with TLParen :: TAtom false n0 :: _ => in_sq n0 | _ => false end); [discriminate H|].
+          erewrite IH'; [|apply le_n|exact H]; lia.
+      + (* ( *) cbn [is_big]. destruct (sqhead r) eqn:Sq.
+        * destruct r as [|t1 r1]; [discriminate Sq|]. destruct t1; try discriminate Sq. destruct s; try discriminate Sq.
+          rename n0 into n1. cbn [sqhead] in Sq. cbn [okts] in H. rewrite Sq in H.
+          destruct r1 as [|[] r2]; try discriminate H.
+          destruct ((n1 =? SQ_BASE + N.of_nat i) && small i); [|discriminate H].
+          match type of H with okts ?k' ?i' ?r' = _ => rewrite (IH' r' k' i' ltac:(cbn [length]; lia) H) end.
+          rewrite !nsub_cons. cbn [is_big].
+          assert (E1 : n1 <? SQ_BASE = false).
+          { unfold in_sq in Sq. apply andb_true_iff in Sq. destruct Sq as [Sq' _]. apply N.leb_le in Sq'. apply N.ltb_ge. exact Sq'. }
+          rewrite E1. cbn [negb]. lia.
+        * rewrite okts_lparen_plain in H by exact Sq. erewrite IH'; [|apply le_n|exact H]; lia.
+      + cbn [is_big]. destruct k; [discriminate H|]. cbn [okts] in H. erewrite IH'; [|apply le_n|exact H]; lia.
+      + cbn [is_big]. destruct k; [discriminate H|]. cbn [okts] in H. erewrite IH'; [|apply le_n|exact H]; lia.
+  Qed.
+
+  (** the view of what follows an expression: one token *)
+  Lemma fold_post g i post : estop post = true ->
+    exists F, foldq (S g) O i post = F /\ map fst (fv F) = stoptok post /\ fsubs F = [] /\ ffuel F = false /\
+              fstop F = negb (Nat.eqb (length (stoptok post)) 0).
+  Proof.
+    intro Hs. eexists. split; [reflexivity|].
+    destruct post as [|[t|q| |] r]; try (cbn; repeat split; reflexivity).
+    - destruct t; try discriminate Hs; try (cbn; repeat split; reflexivity).
+      destruct k; try discriminate Hs. cbn. repeat split; reflexivity.
+    - destruct q; try discriminate Hs; cbn; repeat split; reflexivity.
+  Qed.
+
+  Lemma sq_ok_parts e n : sq_ok e n = true -> okts O O (yield e) = Some (O, n).
+  Proof.
+    unfold sq_ok. destruct (okts O O (yield e)) as [[[|k] m]|]; try discriminate.
+    intro H. apply PeanoNat.Nat.eqb_eq in H. subst. reflexivity.
+  Qed.
+
+  Lemma nth_error_last {A} (V0 : list A) (a : A) W : nth_error ((V0 ++ [a]) ++ W) (length V0) = Some a.
+  Proof. rewrite <- app_assoc. rewrite nth_error_app2 by lia. rewrite PeanoNat.Nat.sub_diag. reflexivity. Qed.
+
+  Lemma xwf_parts e subs : xwf d (X e subs) = true ->
+    ewf bd e = true /\ sq_ok e (length subs) = true /\ lead_ok (exists_fn d) (yield e) subs = true /\
+    forallb (qwf d) subs = true.
+  Proof.
+    rewrite xwf_x. intro H. apply andb_true_iff in H. destruct H as [H H4]. apply andb_true_iff in H. destruct H as [H H3].
+    apply andb_true_iff in H. destruct H as [H1 H2]. auto.
+  Qed.
+
+  Lemma pex_rt x post :
+    xwf d x = true -> (xlevel x <= f)%nat -> qfrag d (xtoks x ++ post) = true -> estop post = true ->
+    pex d recq (xtoks x ++ post) = Ok (x, post).
+  Proof.
+    destruct x as [e subs]. rewrite xtoks_x. cbn [xlevel]. intros Hw Hlv Hf Hs.
+    apply xwf_parts in Hw. destruct Hw as (Hw & Hsq & Hld & Hsw).
+    rewrite (ewf_ptoks _ _ Hw) in *.
+    destruct (ewf_parts _ _ Hw) as (Hsh & Hwf & Hls & _ & Hfr).
+    destruct (stoptok_np bd _ Hs) as [Hnp Hesc].
+    pose proof (sq_ok_parts _ _ Hsq) as Hok.
+    assert (Hsl : Forall Qok subs).
+    { apply maxl_map_le in Hlv. rewrite Forall_forall in *. intros q Hin. split; [|apply Hlv; exact Hin].
+      rewrite forallb_forall in Hsw. apply Hsw. exact Hin. }
+    unfold pex.
+    assert (Ht : trailing d && comma_rparen (unfoldl (map qtoks subs) (yield e) ++ post) = false).
+    { destruct (trailing d) eqn:T; [|reflexivity]. cbn [andb]. eapply qfrag_trail; eauto. }
+    rewrite Ht. unfold pexpr.
+    destruct (fold_rt _ (yield e) (le_n _) O O (O, length subs) subs post Hok eq_refl Hsl Hld Hs Hf)
+      as (V & m & Hm & Hmap & Hlast & Hfold).
+    set (l := unfoldl (map qtoks subs) (yield e) ++ post) in *.
+    assert (Hg : S (length l) = (m + S (length l - m))%nat) by (clear - Hm; unfold l; rewrite app_length; lia).
+    rewrite Hg, Hfold. cbn [fst plus].
+    destruct (fold_post (length l - m) (length subs) post Hs) as (F & -> & Hfv & Hfs & Hff & Hfst).
+    unfold fpre. cbn [ffuel fv fsubs fstop]. rewrite Hff, map_app, Hmap, Hfv, Hfs, app_nil_r.
+    rewrite (parse_expr_roundtrip bd (d_U0 d Hd) (d_Hand d Hd) e (stoptok post)); auto.
+    - cbn [bind]. rewrite Hfst.
+      assert (Hc : negb (Nat.eqb (length (stoptok post)) 0) && Nat.eqb (length (stoptok post)) 0 = false)
+        by (destruct (Nat.eqb (length (stoptok post)) 0); reflexivity).
+      rewrite Hc. rewrite app_length.
+      rewrite PeanoNat.Nat.add_sub.
+      rewrite firstn_app, PeanoNat.Nat.sub_diag, firstn_all. cbn [firstn]. rewrite app_nil_r.
+      pose proof (okts_count _ (yield e) (le_n _) _ _ _ Hok) as Hcnt. cbn [snd plus] in Hcnt. rewrite <- Hcnt, firstn_all.
+      destruct (yield_starts e) as (t0 & tl0 & Ey & _).
+      destruct (Hlast ltac:(rewrite Ey; discriminate)) as (V0 & t1 & EV).
+      assert (Hlen : length (yield e) = S (length V0)).
+      { rewrite <- Hmap, EV, map_length, app_length. cbn [length]. apply PeanoNat.Nat.add_1_r. }
+      rewrite Hlen. unfold rest_at. rewrite EV, nth_error_last. reflexivity.
+    - rewrite Hnp, (d_U0 d Hd). apply rspine_ge_zero; auto using (d_U0 d Hd), (d_Hand d Hd).
+    - rewrite Hnp. apply N.le_refl.
+    - intros _. exact Hesc.
+    - apply frag_ok_stop; assumption.
+  Qed.
+
+  (** *** the first printed tokens of an expression *)
+  Definition xstart (h : qtok) : bool :=
+    match h with QK KExists => true | QE t => starts t | _ => false end.
+
+  Lemma xtoks_head x post : xwf d x = true ->
+    exists h r, xtoks x ++ post = h :: r /\ xstart h = true /\
+                (h = QE TLParen -> match r with QE TRParen :: _ => False | _ => True end).
+  Proof.
+    destruct x as [e subs]. rewrite xtoks_x. intro Hw.
+    apply xwf_parts in Hw. destruct Hw as (Hw & Hsq & Hld & Hsw).
+    rewrite (ewf_ptoks _ _ Hw). destruct (ewf_parts _ _ Hw) as (Hsh & _).
+    pose proof (sq_ok_parts _ _ Hsq) as Hok.
+    destruct (yield_no_unit _ _ Hsh) as (t & tl & Ey & St & Hu). rewrite Ey in *.
+    destruct (uhead _ _ _ _ subs post Hok) as [E|t' r' E Hb Eu|Z Eu|Z Eu _|n Z Eu]; try discriminate E.
+    - injection E as <- <-. rewrite Eu. eexists; eexists; split; [reflexivity|split; [exact St|]].
+      intro Et. injection Et as ->. destruct (Hu eq_refl) as (t2 & tl2 & -> & Nt2).
+      (* the token after the opening parenthesis *)
+      destruct (sqhead (t2 :: tl2)) eqn:Sq.
+      + destruct t2; try discriminate Sq. destruct s; try discriminate Sq. cbn [sqhead] in Sq.
+        assert (E1 : n <? SQ_BASE = false).
+        { unfold in_sq in Sq. apply andb_true_iff in Sq. destruct Sq as [Sq' _]. apply N.leb_le in Sq'. apply N.ltb_ge. exact Sq'. }
+        pose proof Hld as Hl0. cbn [lead_ok] in Hl0. rewrite E1 in Hl0.
+        cbn [unfoldl]. rewrite E1. destruct subs as [|q sl']; [discriminate Hl0|]. cbn [map]. rewrite wrap_sq by exact Sq.
+        apply andb_true_iff in Hl0. destruct Hl0 as [Hl0 _]. rewrite Sq in Hl0. cbn [negb] in Hl0. rewrite andb_false_r, orb_false_r in Hl0.
+        pose proof (qlead_qstart q (unfoldl (map qtoks sl') tl2 ++ post) Hl0) as Hq'. rewrite <- app_assoc.
+        destruct (qtoks q ++ unfoldl (map qtoks sl') tl2 ++ post) as [|[[]|[]| |] ?]; try exact I; discriminate Hq'.
+      + rewrite okts_lparen_plain in Hok by exact Sq.
+        destruct (uhead _ _ _ _ subs post Hok) as [E|t' r'' E Hb' Eu'|Z Eu'|Z Eu' _|n Z Eu']; try discriminate E;
+          try (rewrite Eu'; exact I).
+        injection E as <- <-. rewrite Eu'. destruct t2; try exact I. congruence.
+    - rewrite Eu. eexists; eexists; split; [reflexivity|split; [reflexivity|intro; discriminate]].
+    - rewrite Eu. eexists; eexists; split; [reflexivity|split; [reflexivity|intro; discriminate]].
+    - rewrite Eu. eexists; eexists; split; [reflexivity|split; [reflexivity|intro; discriminate]].
+  Qed.
 
   (** after a list element: a comma, or the end of the clause *)
   Definition fol (n : nat) (post : list qtok) : Prop := is_comma post = true \/ (n <= hrank post)%nat.
@@ -738,33 +1586,19 @@ Section RoundTrip.
     destruct post as [|[[]| | |] r]; try discriminate H; reflexivity.
   Qed.
 
-  Lemma pex_rt e post :
-    ewf bd e = true -> qfrag d (qe (yield e) ++ post) = true -> estop post = true ->
-    pex d (qe (yield e) ++ post) = Ok (e, post).
+  Lemma parse_item_x h r : xstart h = true -> parse_item d recq (h :: r) = parse_item_expr d recq (h :: r).
   Proof.
-    intros He Hf Hs. unfold pex.
-    assert (Ht : trailing d && comma_rparen (qe (yield e) ++ post) = false).
-    { destruct (trailing d) eqn:T; [|reflexivity]. cbn [andb]. eapply qfrag_trail; eauto. }
-    rewrite Ht. apply pexpr_rt; auto using (d_U0 d Hd), (d_Hand d Hd).
-    rewrite <- cut_yield. apply qfrag_frag; [exact Hf|apply exempt_yield; exact Hs].
-  Qed.
-
-  Lemma parse_item_expr_eq t r : starts t = true -> parse_item d (QE t :: r) = parse_item_expr d (QE t :: r).
-  Proof.
-    destruct t; cbn [starts]; intro H; try discriminate; try reflexivity.
+    destruct h as [t|[]| |]; cbn [xstart]; intro H; try discriminate H; try reflexivity.
+    destruct t; cbn [starts] in H; try discriminate; try reflexivity.
     cbn [parse_item]. destruct (k =? K_Mul) eqn:E; [|reflexivity].
     apply N.eqb_eq in E. subst k. vm_compute in H. discriminate.
   Qed.
 
-  Lemma parse_item_yield e post :
-    parse_item d (qe (yield e) ++ post) = parse_item_expr d (qe (yield e) ++ post).
-  Proof. destruct (yield_head e) as (t & tl & E & St). rewrite E. apply parse_item_expr_eq. exact St. Qed.
-
   Lemma item_rt i post :
-    item_wf bd i = true -> qfrag d (item_toks i ++ post) = true -> fol 1 post ->
-    parse_item d (item_toks i ++ post) = Ok (i, post).
+    item_wf d i = true -> (ilevel i <= f)%nat -> qfrag d (item_toks i ++ post) = true -> fol 1 post ->
+    parse_item d recq (item_toks i ++ post) = Ok (i, post).
   Proof.
-    intros Hw Hf Hp. destruct i as [|e|e w]; cbn [item_toks item_wf] in *.
+    intros Hw Hlv Hf Hp. destruct i as [|x|x w]; cbn [item_toks item_wf item_wfg ilevel] in *.
     - (* wildcard *)
       cbn [app parse_item]. rewrite N.eqb_refl.
       assert (Hs : star_ok d (QE (TOp K_Mul) :: post) = true).
@@ -772,39 +1606,38 @@ Section RoundTrip.
       cbn [app star_ok] in Hs. apply andb_true_iff in Hs. destruct Hs as [Hs _].
       destruct Hp as [Hp|Hp]; head_cases post; cbn [is_comma hrank] in Hp; try discriminate Hp; try lia; try reflexivity.
       all: rewrite N.eqb_refl in Hs; cbn [andb] in Hs; apply negb_true_iff in Hs; rewrite Hs; reflexivity.
-    - rewrite (ewf_ptoks _ _ Hw) in *. rewrite parse_item_yield. unfold parse_item_expr.
-      rewrite pex_rt; auto; [|eapply fol_estop; eauto]. cbn [bind].
+    - destruct (xtoks_head x post Hw) as (h & r & E & Hh & _). rewrite E, parse_item_x by exact Hh. rewrite <- E.
+      unfold parse_item_expr. rewrite pex_rt; auto; [|eapply fol_estop; eauto]. cbn [bind].
       rewrite parse_alias_none; [reflexivity|].
       destruct Hp as [Hp|Hp]; [apply noalias_comma; exact Hp|apply noalias_col; assumption].
-    - apply andb_true_iff in Hw. destruct Hw as [He Hw].
-      rewrite (ewf_ptoks _ _ He) in *. rewrite <- app_assoc in *. rewrite parse_item_yield. unfold parse_item_expr.
-      rewrite pex_rt; auto. cbn [bind app]. rewrite parse_alias_some by exact Hw. reflexivity.
+    - apply andb_true_iff in Hw. destruct Hw as [He Hw]. rewrite <- app_assoc in *.
+      destruct (xtoks_head x ([QK KAs; w] ++ post) He) as (h & r & E & Hh & _). rewrite E, parse_item_x by exact Hh. rewrite <- E.
+      unfold parse_item_expr. rewrite pex_rt; auto. cbn [bind app]. rewrite parse_alias_some by exact Hw. reflexivity.
   Qed.
 
-  Lemma order_elem_rt x post :
-    ewf bd (fst x) = true -> qfrag d (order_elem_toks x ++ post) = true ->
+  Lemma order_elem_rt o post :
+    oelem_wf d o = true -> (oelevel o <= f)%nat -> qfrag d (oelem_toks o ++ post) = true ->
     (is_comma post = true \/ (7 <= hrank post)%nat) ->
-    parse_order_elem d (order_elem_toks x ++ post) = Ok (x, post).
+    parse_order_elem d recq (oelem_toks o ++ post) = Ok (o, post).
   Proof.
-    destruct x as [e ad]. cbn [fst]. intros He Hf Hp. unfold order_elem_toks in *. cbn [fst snd] in *.
-    rewrite (ewf_ptoks _ _ He) in *. rewrite <- app_assoc in *. unfold parse_order_elem.
+    destruct o as [x ad]. cbn [oelem_wf oelem_wfg oelevel oelem_toks]. intros He Hlv Hf Hp.
+    rewrite <- app_assoc in *. unfold parse_order_elem.
     rewrite pex_rt; auto.
-    - cbn [bind]. destruct ad as [[|]|]; try reflexivity. cbn [app].
+    - cbn [bind]. destruct ad as [[|]|]; try reflexivity. cbn [asc_toks app].
       destruct Hp as [Hp|Hp]; head_cases post; cbn [is_comma hrank] in Hp; try discriminate Hp; try lia; reflexivity.
-    - destruct ad as [[|]|]; try reflexivity. cbn [app].
+    - destruct ad as [[|]|]; try reflexivity. cbn [asc_toks app].
       destruct Hp as [Hp|Hp]; [eapply (fol_estop 1); [lia|left; exact Hp]|apply hrank_estop; lia].
   Qed.
 
-  Lemma group_elem_rt e post :
-    ewf bd e = true -> qfrag d (qe (ptoks e) ++ post) = true -> fol 4 post ->
-    parse_group_elem d (qe (ptoks e) ++ post) = Ok (e, post).
+  Lemma group_elem_rt x post :
+    xwf d x = true -> (xlevel x <= f)%nat -> qfrag d (xtoks x ++ post) = true -> fol 4 post ->
+    parse_group_elem d recq (xtoks x ++ post) = Ok (x, post).
   Proof.
-    intros He Hf Hp. rewrite (ewf_ptoks _ _ He) in *.
-    assert (Hx : parse_group_elem d (qe (yield e) ++ post) = pex d (qe (yield e) ++ post)).
-    { destruct (ewf_parts _ _ He) as (Hsh & _).
-      destruct (yield_no_unit _ _ Hsh) as (t & tl & E & St & Hu). rewrite E. cbn [qe map app].
-      destruct t; try reflexivity. destruct (Hu eq_refl) as (t2 & tl2 & E2 & N2). subst tl. cbn [map app].
-      destruct t2; try reflexivity. congruence. }
+    intros He Hlv Hf Hp.
+    assert (Hx : parse_group_elem d recq (xtoks x ++ post) = pex d recq (xtoks x ++ post)).
+    { destruct (xtoks_head x post He) as (h & r & E & Hh & Hu). rewrite E.
+      destruct h as [t| | |]; try reflexivity. destruct t; try reflexivity. specialize (Hu eq_refl).
+      destruct r as [|[[]| | |] ?]; try reflexivity. contradiction. }
     rewrite Hx. apply pex_rt; auto. destruct Hp as [Hp|Hp]; [eapply (fol_estop 1); [lia|left; exact Hp]|apply hrank_estop; lia].
   Qed.
 
@@ -833,23 +1666,26 @@ Section RoundTrip.
       + cbn [follow] in Hf. apply qfrag_app in Hf. eapply qfrag_cons. exact Hf.
   Qed.
 
-  Lemma comma_end_safe t r :
-    starts t = true \/ t = TOp K_Mul -> comma_end (res_col d) (QE t :: r) = false.
+  Lemma comma_end_safe h r :
+    xstart h = true \/ h = QE (TOp K_Mul) -> comma_end (res_col d) (h :: r) = false.
   Proof.
-    intro H. assert (Hk : kw_only (QE t) = false).
-    { destruct H as [H|H]; [apply starts_facts in H; tauto|subst; reflexivity]. }
-    assert (Hm : mem (QE t) (res_col d) = false).
-    { destruct (mem (QE t) (res_col d)) eqn:M; [|reflexivity]. apply (d_kw d Hd) in M. congruence. }
+    intro H. assert (Hm : mem h (res_col d) = false).
+    { destruct H as [H|H].
+      - destruct h as [t|[]| |]; cbn [xstart] in H; try discriminate H; [|apply (d_exists d Hd)].
+        destruct (mem (QE t) (res_col d)) eqn:M; [|reflexivity]. apply (d_kw d Hd) in M.
+        apply starts_facts in H. destruct H as (_ & _ & _ & _ & _ & _ & _ & H). congruence.
+      - subst h. destruct (mem (QE (TOp K_Mul)) (res_col d)) eqn:M; [|reflexivity]. apply (d_kw d Hd) in M. discriminate M. }
     destruct H as [H|H].
-    - destruct t; cbn [starts] in H; try discriminate H; exact Hm.
+    - destruct h as [t|[]| |]; cbn [xstart] in H; try discriminate H; [|exact Hm].
+      destruct t; cbn [starts] in H; try discriminate H; exact Hm.
     - subst. exact Hm.
   Qed.
 
-  Lemma notrail_yield trail e r :
-    (forall res, trail = Some res -> res = res_col d) -> notrail trail (qe (yield e) ++ r).
+  Lemma notrail_x trail x r :
+    xwf d x = true -> (forall res, trail = Some res -> res = res_col d) -> notrail trail (xtoks x ++ r).
   Proof.
-    intro Ht. unfold notrail. destruct trail as [res|]; [|exact I]. rewrite (Ht res eq_refl).
-    destruct (yield_head e) as (t & tl & E & St). rewrite E. apply comma_end_safe. auto.
+    intros Hw Ht. unfold notrail. destruct trail as [res|]; [|exact I]. rewrite (Ht res eq_refl).
+    destruct (xtoks_head x r Hw) as (h & r' & E & Hh & _). rewrite E. apply comma_end_safe. auto.
   Qed.
 
   Lemma trail_proj_col res : trail_proj d = Some res -> res = res_col d.
@@ -871,56 +1707,81 @@ Section RoundTrip.
     apply comma_end_safe. left. reflexivity.
   Qed.
 
-  Lemma notrail_item i r : item_wf bd i = true -> notrail (trail_proj d) (item_toks i ++ r).
+  Lemma notrail_item i r : item_wf d i = true -> notrail (trail_proj d) (item_toks i ++ r).
   Proof.
-    intro Hw. destruct i as [|e|e w]; cbn [item_toks item_wf] in *.
+    intro Hw. destruct i as [|x|x w]; cbn [item_toks item_wf item_wfg] in *.
     - unfold notrail. destruct (trail_proj d) as [res|] eqn:T; [|exact I]. rewrite (trail_proj_col _ T).
       apply comma_end_safe. auto.
-    - rewrite (ewf_ptoks _ _ Hw). apply notrail_yield. apply trail_proj_col.
-    - apply andb_true_iff in Hw. destruct Hw as [He _]. rewrite (ewf_ptoks _ _ He), <- app_assoc.
-      apply notrail_yield. apply trail_proj_col.
+    - apply notrail_x; [exact Hw|apply trail_proj_col].
+    - apply andb_true_iff in Hw. destruct Hw as [He _]. rewrite <- app_assoc.
+      apply notrail_x; [exact He|apply trail_proj_col].
   Qed.
 
   Lemma items_rt items post g :
-    items <> [] -> forallb (item_wf bd) items = true ->
+    items <> [] -> forallb (item_wf d) items = true -> Forall (fun i => (ilevel i <= f)%nat) items ->
     qfrag d (sepc (map item_toks items) ++ post) = true -> (1 <= hrank post)%nat -> (length items <= g)%nat ->
-    comma_list (parse_item d) (trail_proj d) g (sepc (map item_toks items) ++ post) = Ok (items, post).
+    comma_list (parse_item d recq) (trail_proj d) g (sepc (map item_toks items) ++ post) = Ok (items, post).
   Proof.
-    intros Hne Hw Hf Hr Hg. apply comma_list_rt; auto.
-    - eapply (elems_ok_build _ _ _ (item_wf bd) (fol 1)); eauto using fol_comma.
-      + intros; apply item_rt; auto.
+    intros Hne Hw Hlv Hf Hr Hg. apply comma_list_rt; auto.
+    - eapply (elems_ok_build _ _ _ (fun i => item_wf d i && Nat.leb (ilevel i) f) (fol 1)); eauto using fol_comma.
+      + intros x post' Hx Hqf Hp. apply andb_true_iff in Hx. destruct Hx as [Hx1 Hx2]. apply PeanoNat.Nat.leb_le in Hx2.
+        apply item_rt; auto.
+      + rewrite forallb_forall in *. intros x Hin. rewrite (Hw x Hin). rewrite Forall_forall in Hlv.
+        apply PeanoNat.Nat.leb_le. auto.
       + rewrite forallb_forall in Hw. apply Forall_forall. intros x Hin r. apply notrail_item. apply Hw.
         destruct items; [contradiction|right; exact Hin].
       + right; exact Hr.
     - eapply hrank_not_comma; [|exact Hr]. lia.
   Qed.
 
-  Lemma exprs_rt (l : list expr) post g :
-    l <> [] -> forallb (ewf bd) l = true ->
-    qfrag d (sepc (map (fun e => qe (ptoks e)) l) ++ post) = true -> (4 <= hrank post)%nat -> (length l <= g)%nat ->
-    comma_list (parse_group_elem d) (trail_all d) g (sepc (map (fun e => qe (ptoks e)) l) ++ post) = Ok (l, post).
+  Lemma exprs_rt (l : list xexpr) post g :
+    l <> [] -> forallb (xwf d) l = true -> Forall (fun x => (xlevel x <= f)%nat) l ->
+    qfrag d (sepc (map xtoks l) ++ post) = true -> (4 <= hrank post)%nat -> (length l <= g)%nat ->
+    comma_list (parse_group_elem d recq) (trail_all d) g (sepc (map xtoks l) ++ post) = Ok (l, post).
   Proof.
-    intros Hne Hw Hf Hr Hg. apply comma_list_rt; auto.
-    - eapply (elems_ok_build _ _ _ (ewf bd) (fol 4)); eauto using fol_comma.
-      + intros; apply group_elem_rt; auto.
-      + rewrite forallb_forall in Hw. apply Forall_forall. intros x Hin r. cbv beta.
-        rewrite (ewf_ptoks bd x). { apply notrail_yield. apply trail_all_col. }
-        apply Hw. destruct l; [contradiction|right; exact Hin].
+    intros Hne Hw Hlv Hf Hr Hg. apply comma_list_rt; auto.
+    - eapply (elems_ok_build _ _ _ (fun x => xwf d x && Nat.leb (xlevel x) f) (fol 4)); eauto using fol_comma.
+      + intros x post' Hx Hqf Hp. apply andb_true_iff in Hx. destruct Hx as [Hx1 Hx2]. apply PeanoNat.Nat.leb_le in Hx2.
+        apply group_elem_rt; auto.
+      + rewrite forallb_forall in *. intros x Hin. rewrite (Hw x Hin). rewrite Forall_forall in Hlv.
+        apply PeanoNat.Nat.leb_le. auto.
+      + rewrite forallb_forall in Hw. apply Forall_forall. intros x Hin r.
+        apply notrail_x; [|apply trail_all_col]. apply Hw. destruct l; [contradiction|right; exact Hin].
       + right; exact Hr.
     - eapply hrank_not_comma; [|exact Hr]. lia.
   Qed.
 
-  Lemma orders_rt (l : list (expr * option bool)) post g :
-    l <> [] -> forallb (fun x => ewf bd (fst x)) l = true ->
-    qfrag d (sepc (map order_elem_toks l) ++ post) = true -> (7 <= hrank post)%nat -> (length l <= g)%nat ->
-    comma_list (parse_order_elem d) (trail_all d) g (sepc (map order_elem_toks l) ++ post) = Ok (l, post).
+  Lemma exprs_like_rt (l : list xexpr) post g :
+    l <> [] -> forallb (xwf d) l = true -> Forall (fun x => (xlevel x <= f)%nat) l ->
+    qfrag d (sepc (map xtoks l) ++ post) = true -> hrank post = 9%nat -> (length l <= g)%nat ->
+    comma_list (pex d recq) (trail_all d) g (sepc (map xtoks l) ++ post) = Ok (l, post).
   Proof.
-    intros Hne Hw Hf Hr Hg. apply comma_list_rt; auto.
-    - eapply (elems_ok_build _ _ _ (fun x => ewf bd (fst x)) (fol 7)); eauto using fol_comma.
-      + intros x post' Hx Hq [Hp|Hp]; apply order_elem_rt; auto.
-      + rewrite forallb_forall in Hw. apply Forall_forall. intros x Hin r. unfold order_elem_toks.
-        rewrite (ewf_ptoks bd (fst x)), <- app_assoc. { apply notrail_yield. apply trail_all_col. }
-        apply Hw. destruct l; [contradiction|right; exact Hin].
+    intros Hne Hw Hlv Hf Hr Hg. apply comma_list_rt; auto.
+    - eapply (elems_ok_build _ _ _ (fun x => xwf d x && Nat.leb (xlevel x) f) (fol 9)); eauto using fol_comma.
+      + intros x post' Hx Hqf Hp. apply andb_true_iff in Hx. destruct Hx as [Hx1 Hx2]. apply PeanoNat.Nat.leb_le in Hx2.
+        apply pex_rt; auto. eapply (fol_estop 9); [lia|exact Hp].
+      + rewrite forallb_forall in *. intros x Hin. rewrite (Hw x Hin). rewrite Forall_forall in Hlv.
+        apply PeanoNat.Nat.leb_le. auto.
+      + rewrite forallb_forall in Hw. apply Forall_forall. intros x Hin r.
+        apply notrail_x; [|apply trail_all_col]. apply Hw. destruct l; [contradiction|right; exact Hin].
+      + right; rewrite Hr; apply le_n.
+    - eapply hrank_not_comma; [|rewrite Hr; apply le_n]. lia.
+  Qed.
+
+  Lemma orders_rt (l : list oelem) post g :
+    l <> [] -> forallb (oelem_wf d) l = true -> Forall (fun o => (oelevel o <= f)%nat) l ->
+    qfrag d (sepc (map oelem_toks l) ++ post) = true -> (7 <= hrank post)%nat -> (length l <= g)%nat ->
+    comma_list (parse_order_elem d recq) (trail_all d) g (sepc (map oelem_toks l) ++ post) = Ok (l, post).
+  Proof.
+    intros Hne Hw Hlv Hf Hr Hg. apply comma_list_rt; auto.
+    - eapply (elems_ok_build _ _ _ (fun o => oelem_wf d o && Nat.leb (oelevel o) f) (fol 7)); eauto using fol_comma.
+      + intros x post' Hx Hqf Hp. apply andb_true_iff in Hx. destruct Hx as [Hx1 Hx2]. apply PeanoNat.Nat.leb_le in Hx2.
+        apply order_elem_rt; auto.
+      + rewrite forallb_forall in *. intros x Hin. rewrite (Hw x Hin). rewrite Forall_forall in Hlv.
+        apply PeanoNat.Nat.leb_le. auto.
+      + rewrite forallb_forall in Hw. apply Forall_forall. intros x Hin r. destruct x as [x ad]. cbn [oelem_toks].
+        rewrite <- app_assoc. apply notrail_x; [|apply trail_all_col].
+        assert (Hx : oelem_wf d (OElem x ad) = true) by (apply Hw; destruct l; [contradiction|right; exact Hin]). exact Hx.
       + right; exact Hr.
     - eapply hrank_not_comma; [|exact Hr]. lia.
   Qed.
@@ -931,11 +1792,11 @@ Section RoundTrip.
 
   Lemma opt_from_miss ts : (2 <= hrank ts)%nat -> opt_tok (QE (TKw KFrom)) ts = (false, ts).
   Proof. intro H. head_cases ts; cbn [hrank] in H; try lia; reflexivity. Qed.
-  Lemma opt_where_miss ts : (3 <= hrank ts)%nat -> opt_clause d (QK KWhere) ts = Ok (None, ts).
+  Lemma opt_where_miss ts : (3 <= hrank ts)%nat -> opt_clause d recq (QK KWhere) ts = Ok (None, ts).
   Proof. intro H. head_cases ts; cbn [hrank] in H; try lia; reflexivity. Qed.
   Lemma opt_group_miss ts : (4 <= hrank ts)%nat -> opt_tok2 (QK KGroup) (QK KBy) ts = (false, ts).
   Proof. intro H. head_cases ts; cbn [hrank] in H; try lia; try reflexivity; destruct ts; reflexivity. Qed.
-  Lemma opt_having_miss ts : (5 <= hrank ts)%nat -> opt_clause d (QK KHaving) ts = Ok (None, ts).
+  Lemma opt_having_miss ts : (5 <= hrank ts)%nat -> opt_clause d recq (QK KHaving) ts = Ok (None, ts).
   Proof. intro H. head_cases ts; cbn [hrank] in H; try lia; reflexivity. Qed.
   Lemma opt_order_miss ts : (7 <= hrank ts)%nat -> opt_tok2 (QK KOrder) (QK KBy) ts = (false, ts).
   Proof. intro H. head_cases ts; cbn [hrank] in H; try lia; try reflexivity; destruct ts; reflexivity. Qed.
@@ -952,36 +1813,38 @@ Section RoundTrip.
   Lemma set_op_miss ts : (6 <= hrank ts)%nat -> set_op_of ts = None.
   Proof. intro H. head_cases ts; cbn [hrank] in H; try lia; reflexivity. Qed.
 
-  Lemma opt_start_miss k t r :
+  Lemma opt_start_miss k h r :
     k = QK KAs \/ k = QE (TKw KAll) \/ k = QE (TKw KDistinct) \/ k = QK KOn ->
-    starts t = true \/ t = TOp K_Mul -> opt_tok k (QE t :: r) = (false, QE t :: r).
+    xstart h = true \/ h = QE (TOp K_Mul) -> opt_tok k (h :: r) = (false, h :: r).
   Proof.
     intros Hk [H|H].
-    - destruct t; cbn [starts] in H; try discriminate H; destruct Hk as [->|[->|[->| ->]]]; try reflexivity;
-        destruct k0; try discriminate H; reflexivity.
-    - subst t. destruct Hk as [->|[->|[->| ->]]]; reflexivity.
+    - destruct h as [t|[]| |]; cbn [xstart] in H; try discriminate H.
+      + destruct t; cbn [starts] in H; try discriminate H; destruct Hk as [->|[->|[->| ->]]]; try reflexivity;
+          destruct k0; try discriminate H; reflexivity.
+      + destruct Hk as [->|[->|[->| ->]]]; reflexivity.
+    - subst h. destruct Hk as [->|[->|[->| ->]]]; reflexivity.
   Qed.
 
   Lemma items_head items rest :
-    items <> [] -> forallb (item_wf bd) items = true ->
-    exists t r, sepc (map item_toks items) ++ rest = QE t :: r /\ (starts t = true \/ t = TOp K_Mul).
+    items <> [] -> forallb (item_wf d) items = true ->
+    exists h r, sepc (map item_toks items) ++ rest = h :: r /\ (xstart h = true \/ h = QE (TOp K_Mul)).
   Proof.
     destruct items as [|i suf]; [congruence|]. intros _ Hw. cbn [forallb] in Hw. apply andb_true_iff in Hw.
     destruct Hw as [Hw _]. rewrite sepc_follow.
-    destruct i as [|e|e w]; cbn [item_toks item_wf] in *.
+    destruct i as [|x|x w]; cbn [item_toks item_wf item_wfg] in *.
     - eexists; eexists; split; [reflexivity|auto].
-    - rewrite (ewf_ptoks _ _ Hw). destruct (yield_head e) as (t & tl & E & St). rewrite E. eexists; eexists; split; [reflexivity|auto].
-    - apply andb_true_iff in Hw. destruct Hw as [He _]. rewrite (ewf_ptoks _ _ He).
-      destruct (yield_head e) as (t & tl & E & St). rewrite E. eexists; eexists; split; [reflexivity|auto].
+    - destruct (xtoks_head x (follow item_toks suf rest) Hw) as (h & r & E & Hh & _). rewrite E. eauto.
+    - apply andb_true_iff in Hw. destruct Hw as [He _]. rewrite <- app_assoc.
+      destruct (xtoks_head x ([QK KAs; w] ++ follow item_toks suf rest) He) as (h & r & E & Hh & _). rewrite E. eauto.
   Qed.
 
-  Lemma exprs_head (l : list expr) rest :
-    l <> [] -> forallb (ewf bd) l = true ->
-    exists t r, sepc (map (fun e => qe (ptoks e)) l) ++ rest = QE t :: r /\ starts t = true.
+  Lemma exprs_head (l : list xexpr) rest :
+    l <> [] -> forallb (xwf d) l = true ->
+    exists h r, sepc (map xtoks l) ++ rest = h :: r /\ xstart h = true.
   Proof.
-    destruct l as [|e suf]; [congruence|]. intros _ Hw. cbn [forallb] in Hw. apply andb_true_iff in Hw.
-    destruct Hw as [Hw _]. rewrite sepc_follow. rewrite (ewf_ptoks _ _ Hw).
-    destruct (yield_head e) as (t & tl & E & St). rewrite E. eexists; eexists; split; [reflexivity|auto].
+    destruct l as [|x suf]; [congruence|]. intros _ Hw. cbn [forallb] in Hw. apply andb_true_iff in Hw.
+    destruct Hw as [Hw _]. rewrite sepc_follow.
+    destruct (xtoks_head x (follow xtoks suf rest) Hw) as (h & r & E & Hh & _). rewrite E. eauto.
   Qed.
 
   (** ** followers of a table inside FROM: the end of the FROM element, or more of a join *)
@@ -1022,7 +1885,7 @@ Section RoundTrip.
     - qhead post; cbn [jhead jstart] in Hp; try discriminate Hp; reflexivity.
   Qed.
 
-  Lemma parse_tref_word n r rq rt : is_word n = true ->
+  Lemma parse_tref_word n r rq rt : is_word n = true -> qtok_eqb n (QK KTable) = false ->
     parse_tref d rq rt (n :: r) =
     if unnest_table d && qtok_eqb n (QE (TKw KUnnest)) then OutOfFragment
     else bind (table_follow d r) (fun _ =>
@@ -1032,7 +1895,7 @@ Section RoundTrip.
              | _ => Ok (TTable n a, r1)
              end)).
   Proof.
-    intro H. destruct n as [t|k| |]; try discriminate H; [destruct t; try discriminate H|].
+    intros H Ht. destruct n as [t|k| |]; try discriminate H; [destruct t; try discriminate H|destruct k; try discriminate Ht].
     all: cbn [parse_tref]; rewrite ?H; try reflexivity.
   Qed.
 
@@ -1062,14 +1925,6 @@ Section RoundTrip.
     apply fuel_commas.
   Qed.
 
-  (** ** one level: the recursive calls are correct one level down *)
-  Variable f : nat.
-  Variable recq : list qtok -> res (query * list qtok).
-  Variable recb : N -> list qtok -> res (setexpr * list qtok).
-  Variable rect : list qtok -> res (twj * list qtok).
-  Hypothesis Hq : forall q post,
-    qwf d q = true -> (qlevel q <= f)%nat -> ender post = true -> qfrag d (qtoks q ++ post) = true ->
-    recq (qtoks q ++ post) = Ok (q, post).
   Hypothesis Hb : forall b p post,
     bwf d b = true -> (blevel b <= f)%nat -> blspine_gtb p b = true -> headpow post <= p ->
     brspine_geb (headpow post) b = true -> (5 <= hrank post)%nat -> qfrag d (btoks b ++ post) = true ->
@@ -1094,8 +1949,9 @@ Section RoundTrip.
     intros Hw Hl Hf Hp. destruct (fol_noalias_tab _ Hp) as [Hna Hnl].
     destruct t as [n a|q a|x a]; cbn [tref_wf tref_toks tlevel] in *.
     - apply andb_true_iff in Hw. destruct Hw as [Hn' Ha]. unfold name_ok in Hn'.
+      apply andb_true_iff in Hn'. destruct Hn' as [Hn' Htb]. apply negb_true_iff in Htb.
       apply andb_true_iff in Hn'. destruct Hn' as [Hn' Hu]. apply negb_true_iff in Hu.
-      cbn [app]. rewrite parse_tref_word by exact Hn'. rewrite Hu.
+      cbn [app]. rewrite parse_tref_word by assumption. rewrite Hu.
       rewrite table_follow_ok by exact Hp. cbn [bind].
       rewrite parse_talias_rt by assumption. cbn [bind]. apply hint_miss. exact Hp.
     - apply andb_true_iff in Hw. destruct Hw as [Hqw Ha].
@@ -1121,7 +1977,7 @@ Section RoundTrip.
   Lemma jkind_rt k X : parse_jkind (jkind_toks k ++ X) = Ok (Some (k, X)).
   Proof. destruct k; reflexivity. Qed.
 
-  Lemma jcons_none rest : jfol rest -> parse_jcons d false rest = Ok (JNone, rest).
+  Lemma jcons_none rest : jfol rest -> parse_jcons d recq false rest = Ok (JNone, rest).
   Proof.
     intros [[Hp|Hp]|Hp].
     - head_cases rest; cbn [is_comma] in Hp; try discriminate Hp; reflexivity.
@@ -1129,13 +1985,13 @@ Section RoundTrip.
     - qhead rest; cbn [jstart] in Hp; try discriminate Hp; reflexivity.
   Qed.
 
-  Lemma jcons_rt k c rest :
-    jop_wf d (JOp k c) = true -> jfol rest -> qfrag d (jop_suf (JOp k c) ++ rest) = true ->
-    parse_jcons d (match c with JNatural => true | _ => false end) (jop_suf (JOp k c) ++ rest) = Ok (c, rest).
+  Lemma jcons_rt c rest :
+    jcons_wf d c = true -> (jclevel c <= f)%nat -> jfol rest -> qfrag d (jcons_toks c ++ rest) = true ->
+    parse_jcons d recq (match c with JNatural => true | _ => false end) (jcons_toks c ++ rest) = Ok (c, rest).
   Proof.
-    intros Hw Hp Hf. destruct c as [e|cols| |]; cbn [jop_suf jop_wf app] in *.
-    - rewrite (ewf_ptoks _ _ Hw) in *. cbn [parse_jcons].
-      rewrite pex_rt; [reflexivity|exact Hw|eapply qfrag_cons; exact Hf|apply jfol_estop; exact Hp].
+    intros Hw Hlv Hp Hf. destruct c as [x|cols| |]; cbn [jcons_toks jcons_wf jcons_wfg jclevel app] in *.
+    - cbn [parse_jcons].
+      rewrite pex_rt; [reflexivity|exact Hw|exact Hlv|eapply qfrag_cons; exact Hf|apply jfol_estop; exact Hp].
     - cbn [parse_jcons]. unfold cols_toks. cbn [app]. rewrite <- app_assoc. cbn [app].
       rewrite cols_rt by exact Hw. reflexivity.
     - reflexivity.
@@ -1149,25 +2005,25 @@ Section RoundTrip.
   Qed.
 
   Lemma join_rt o r rest g :
-    jop_wf d o = true -> tref_wf d r = true -> (tlevel r <= f)%nat -> jfol rest ->
+    jop_wf d o = true -> (joplevel o <= f)%nat -> tref_wf d r = true -> (tlevel r <= f)%nat -> jfol rest ->
     qfrag d (join_toks (Join o r) ++ rest) = true ->
     join_loop d recq rect (S g) (join_toks (Join o r) ++ rest) =
     bind (join_loop d recq rect g rest) (fun '(js, r4) => Ok (Join o r :: js, r4)).
   Proof.
-    intros Hw Hrw Hl Hp Hf. cbn [join_toks] in *. rewrite <- !app_assoc in *.
+    intros Hw Hol Hrw Hl Hp Hf. cbn [join_toks] in *. rewrite <- !app_assoc in *.
     destruct o as [|k c].
     - cbn [jop_pre jop_suf app] in *. cbn [join_loop].
       rewrite tref_rt; [reflexivity|exact Hrw|exact Hl| |apply jfol_tfol; exact Hp].
       do 2 apply qfrag_cons in Hf. exact Hf.
     - assert (Hpre : jop_pre (JOp k c) = (match c with JNatural => [QK KNatural] | _ => [] end) ++ jkind_toks k)
         by (destruct c; reflexivity).
-      rewrite Hpre in *. rewrite <- !app_assoc in *.
-      assert (Htf : tfol (jop_suf (JOp k c) ++ rest)).
-      { destruct c; cbn [jop_suf app]; try (apply jfol_tfol; exact Hp); right; reflexivity. }
-      assert (Hf2 : qfrag d (tref_toks r ++ jop_suf (JOp k c) ++ rest) = true).
+      rewrite Hpre in *. rewrite <- !app_assoc in *. cbn [jop_suf jop_wf jop_wfg joplevel] in *.
+      assert (Htf : tfol (jcons_toks c ++ rest)).
+      { destruct c; cbn [jcons_toks app]; try (apply jfol_tfol; exact Hp); right; reflexivity. }
+      assert (Hf2 : qfrag d (tref_toks r ++ jcons_toks c ++ rest) = true).
       { apply qfrag_app in Hf. apply qfrag_app in Hf. exact Hf. }
-      assert (Hf3 : qfrag d (jop_suf (JOp k c) ++ rest) = true) by (apply qfrag_app in Hf2; exact Hf2).
-      pose proof (jcons_rt k c rest Hw Hp Hf3) as Hc.
+      assert (Hf3 : qfrag d (jcons_toks c ++ rest) = true) by (apply qfrag_app in Hf2; exact Hf2).
+      pose proof (jcons_rt c rest Hw Hol Hp Hf3) as Hc.
       destruct c as [e|cols| |]; destruct k;
         cbn [app jkind_toks join_loop opt_tok qtok_eqb qkw_beq parse_jkind expect_join bind];
         (rewrite tref_rt by assumption); cbn [bind]; rewrite Hc; reflexivity.
@@ -1181,9 +2037,10 @@ Section RoundTrip.
     induction js as [|[o r] js IH]; intros post g Hw Hl Hf Hp Hg.
     - apply join_loop_end; [lia|exact Hp].
     - destruct g as [|g]; [lia|]. cbn [map concat] in *. rewrite <- app_assoc in *.
-      cbn [forallb join_wf] in Hw. apply andb_true_iff in Hw. destruct Hw as [Hw Hws].
-      apply andb_true_iff in Hw. destruct Hw as [How Hrw]. inversion Hl as [|? ? Hl1 Hl2]; subst. cbn [jlevel] in Hl1.
-      rewrite join_rt; [|exact How|exact Hrw|exact Hl1|apply joins_jfol; exact Hp|exact Hf].
+      cbn [forallb] in Hw. apply andb_true_iff in Hw. destruct Hw as [Hw Hws].
+      assert (Hw' : jop_wf d o && tref_wf d r = true) by exact Hw.
+      apply andb_true_iff in Hw'. destruct Hw' as [How Hrw]. inversion Hl as [|? ? Hl1 Hl2]; subst. cbn [jlevel] in Hl1.
+      rewrite join_rt; [|exact How|lia|exact Hrw|lia|apply joins_jfol; exact Hp|exact Hf].
       rewrite IH; [reflexivity|exact Hws|exact Hl2|eapply qfrag_app; exact Hf|exact Hp|cbn [length] in Hg; lia].
   Qed.
 
@@ -1191,8 +2048,9 @@ Section RoundTrip.
     twj_wf d t = true -> (twjlevel t <= f)%nat -> qfrag d (twj_toks t ++ post) = true -> fol 2 post ->
     twj_step d recq rect (twj_toks t ++ post) = Ok (t, post).
   Proof.
-    destruct t as [r js]. cbn [twj_wf twjlevel twj_toks]. intros Hw Hl Hf Hp.
-    apply andb_true_iff in Hw. destruct Hw as [Hrw Hjw]. rewrite <- app_assoc in *. unfold twj_step.
+    destruct t as [r js]. cbn [twjlevel twj_toks]. intros Hw Hl Hf Hp.
+    assert (Hw' : tref_wf d r && forallb (join_wf d) js = true) by exact Hw.
+    apply andb_true_iff in Hw'. destruct Hw' as [Hrw Hjw]. rewrite <- app_assoc in *. unfold twj_step.
     rewrite tref_rt; [|exact Hrw|lia|exact Hf|apply jfol_tfol, joins_jfol; exact Hp]. cbn [bind].
     rewrite joins_rt; [reflexivity|exact Hjw| |eapply qfrag_app; exact Hf|exact Hp|].
     - apply maxl_map_le. lia.
@@ -1202,10 +2060,13 @@ Section RoundTrip.
   Lemma notrail_twj t r :
     twj_wf d t = true -> twj_head_ok d t = true -> notrail (trail_all d) (twj_toks t ++ r).
   Proof.
-    destruct t as [[n a|q a|x a] js]; cbn [twj_wf tref_wf twj_head_ok twj_toks tref_toks]; intros Hw Hl;
+    destruct t as [[n a|q a|x a] js]; cbn [twj_head_ok twj_toks tref_toks]; intros Hw Hl;
       rewrite <- ?app_assoc; cbn [app].
-    - apply notrail_word; [|exact Hl]. apply andb_true_iff in Hw. destruct Hw as [Hw _].
-      apply andb_true_iff in Hw. destruct Hw as [Hw _]. unfold name_ok in Hw. apply andb_true_iff in Hw. tauto.
+    - apply notrail_word; [|exact Hl].
+      assert (Hw' : name_ok d n && optb is_word a && forallb (join_wf d) js = true) by exact Hw.
+      apply andb_true_iff in Hw'. destruct Hw' as [Hw' _].
+      apply andb_true_iff in Hw'. destruct Hw' as [Hw' _]. unfold name_ok in Hw'. apply andb_true_iff in Hw'.
+      destruct Hw' as [Hw' _]. apply andb_true_iff in Hw'. tauto.
     - apply notrail_lparen.
     - apply notrail_lparen.
   Qed.
@@ -1232,13 +2093,13 @@ Section RoundTrip.
   (** ** clauses *)
   Lemma clause_rt k n x post :
     hrank [k] = n -> (1 <= n)%nat -> (k = QK KWhere \/ k = QK KHaving) ->
-    optb (ewf bd) x = true -> qfrag d (clause_toks k x ++ post) = true -> (S n <= hrank post)%nat ->
-    opt_clause d k (clause_toks k x ++ post) = Ok (x, post).
+    oxwf d x = true -> (oxlevel x <= f)%nat -> qfrag d (clause_toks k (otoks x) ++ post) = true -> (S n <= hrank post)%nat ->
+    opt_clause d recq k (clause_toks k (otoks x) ++ post) = Ok (x, post).
   Proof.
-    intros Hk Hn' Hkk Hw Hf Hr. destruct x as [e|]; cbn [clause_toks optb app] in *.
-    - rewrite (ewf_ptoks _ _ Hw) in *. cbn [opt_clause].
+    intros Hk Hn' Hkk Hw Hlv Hf Hr. destruct x as [e|]; cbn [clause_toks otoks option_map oxwf oxlevel app] in *.
+    - cbn [opt_clause].
       assert (Hkk' : qtok_eqb k k = true) by (destruct Hkk; subst; reflexivity). rewrite Hkk'.
-      rewrite pex_rt; [reflexivity|assumption|eapply qfrag_cons; eauto|apply hrank_estop; lia].
+      rewrite pex_rt; [reflexivity|assumption|assumption|eapply qfrag_cons; eauto|apply hrank_estop; lia].
     - destruct Hkk; subst k; cbn [hrank] in Hk; subst n; [apply opt_where_miss|apply opt_having_miss]; lia.
   Qed.
 
@@ -1257,37 +2118,39 @@ Section RoundTrip.
   Qed.
 
   Lemma group_rt gb post :
-    forallb (ewf bd) gb = true -> qfrag d (group_toks gb ++ post) = true -> (4 <= hrank post)%nat ->
-    parse_group_by d (group_toks gb ++ post) = Ok (gb, post).
+    forallb (xwf d) gb = true -> Forall (fun x => (xlevel x <= f)%nat) gb ->
+    qfrag d (group_toks (map xtoks gb) ++ post) = true -> (4 <= hrank post)%nat ->
+    parse_group_by d recq (group_toks (map xtoks gb) ++ post) = Ok (gb, post).
   Proof.
-    intros Hw Hf Hr. unfold parse_group_by. destruct gb as [|e0 r0].
-    - cbn [group_toks app]. rewrite opt_group_miss by assumption. reflexivity.
-    - change (group_toks (e0 :: r0) ++ post)
-        with (QK KGroup :: QK KBy :: sepc (map (fun e => qe (ptoks e)) (e0 :: r0)) ++ post) in *.
-      change (opt_tok2 (QK KGroup) (QK KBy) (QK KGroup :: QK KBy :: sepc (map (fun e => qe (ptoks e)) (e0 :: r0)) ++ post))
-        with (true, sepc (map (fun e => qe (ptoks e)) (e0 :: r0)) ++ post).
+    intros Hw Hlv Hf Hr. unfold parse_group_by. destruct gb as [|e0 r0].
+    - cbn [map group_toks app]. rewrite opt_group_miss by assumption. reflexivity.
+    - change (group_toks (map xtoks (e0 :: r0)) ++ post)
+        with (QK KGroup :: QK KBy :: sepc (map xtoks (e0 :: r0)) ++ post) in *.
+      change (opt_tok2 (QK KGroup) (QK KBy) (QK KGroup :: QK KBy :: sepc (map xtoks (e0 :: r0)) ++ post))
+        with (true, sepc (map xtoks (e0 :: r0)) ++ post).
       destruct (exprs_head (e0 :: r0) post ltac:(discriminate) Hw) as (t & r & E & St).
       rewrite E at 1. rewrite opt_start_miss by auto. cbn [fst].
-      rewrite exprs_rt; [|discriminate|exact Hw|do 2 (eapply qfrag_cons in Hf); exact Hf|exact Hr|apply fuel_commas].
+      rewrite exprs_rt; [|discriminate|exact Hw|exact Hlv|do 2 (eapply qfrag_cons in Hf); exact Hf|exact Hr|apply fuel_commas].
       cbn [bind]. rewrite opt_with_miss by lia. cbn [fst]. rewrite andb_false_r. reflexivity.
   Qed.
 
   Lemma order_rt ob post :
-    forallb (fun x => ewf bd (fst x)) ob = true -> qfrag d (order_toks ob ++ post) = true -> (7 <= hrank post)%nat ->
-    parse_order_by d (order_toks ob ++ post) = Ok (ob, post).
+    forallb (oelem_wf d) ob = true -> Forall (fun o => (oelevel o <= f)%nat) ob ->
+    qfrag d (order_toks (map oelem_toks ob) ++ post) = true -> (7 <= hrank post)%nat ->
+    parse_order_by d recq (order_toks (map oelem_toks ob) ++ post) = Ok (ob, post).
   Proof.
-    intros Hw Hf Hr. unfold parse_order_by. destruct ob as [|e0 r0].
-    - cbn [order_toks app]. rewrite opt_order_miss by assumption. reflexivity.
-    - change (order_toks (e0 :: r0) ++ post)
-        with (QK KOrder :: QK KBy :: sepc (map order_elem_toks (e0 :: r0)) ++ post) in *.
-      change (opt_tok2 (QK KOrder) (QK KBy) (QK KOrder :: QK KBy :: sepc (map order_elem_toks (e0 :: r0)) ++ post))
-        with (true, sepc (map order_elem_toks (e0 :: r0)) ++ post).
-      apply orders_rt; [discriminate|exact Hw|do 2 (eapply qfrag_cons in Hf); exact Hf|exact Hr|apply fuel_commas].
+    intros Hw Hlv Hf Hr. unfold parse_order_by. destruct ob as [|e0 r0].
+    - cbn [map order_toks app]. rewrite opt_order_miss by assumption. reflexivity.
+    - change (order_toks (map oelem_toks (e0 :: r0)) ++ post)
+        with (QK KOrder :: QK KBy :: sepc (map oelem_toks (e0 :: r0)) ++ post) in *.
+      change (opt_tok2 (QK KOrder) (QK KBy) (QK KOrder :: QK KBy :: sepc (map oelem_toks (e0 :: r0)) ++ post))
+        with (true, sepc (map oelem_toks (e0 :: r0)) ++ post).
+      apply orders_rt; [discriminate|exact Hw|exact Hlv|do 2 (eapply qfrag_cons in Hf); exact Hf|exact Hr|apply fuel_commas].
   Qed.
 
   (** ** SELECT *)
   Lemma select_prefix dist ts2 :
-    (exists t r, ts2 = QE t :: r /\ (starts t = true \/ t = TOp K_Mul)) ->
+    (exists h r, ts2 = h :: r /\ (xstart h = true \/ h = QE (TOp K_Mul))) ->
     fst (opt_tok (QK KAs) (dist_toks dist ++ ts2)) = false /\
     opt_tok (QE (TKw KAll)) (dist_toks dist ++ ts2) = (false, dist_toks dist ++ ts2) /\
     opt_tok (QE (TKw KDistinct)) (dist_toks dist ++ ts2) = (dist, ts2) /\
@@ -1299,38 +2162,38 @@ Section RoundTrip.
     - rewrite !opt_start_miss by auto. repeat split; reflexivity.
   Qed.
 
-  Lemma hrank_clause k x post n :
+  Lemma hrank_clause k (x : option (list qtok)) post n :
     (n <= hrank [k])%nat -> (n <= hrank post)%nat -> (n <= hrank (clause_toks k x ++ post))%nat.
   Proof. destruct x; cbn [clause_toks app]; auto. Qed.
 
   Lemma select_ranks (from : list twj) wh gb hv post :
     (5 <= hrank post)%nat ->
-    (4 <= hrank (clause_toks (QK KHaving) hv ++ post))%nat /\
-    (3 <= hrank (group_toks gb ++ clause_toks (QK KHaving) hv ++ post))%nat /\
-    (2 <= hrank (clause_toks (QK KWhere) wh ++ group_toks gb ++ clause_toks (QK KHaving) hv ++ post))%nat /\
-    (1 <= hrank (from_toks (map twj_toks from) ++ clause_toks (QK KWhere) wh ++ group_toks gb ++
-                 clause_toks (QK KHaving) hv ++ post))%nat.
+    (4 <= hrank (clause_toks (QK KHaving) (otoks hv) ++ post))%nat /\
+    (3 <= hrank (group_toks (map xtoks gb) ++ clause_toks (QK KHaving) (otoks hv) ++ post))%nat /\
+    (2 <= hrank (clause_toks (QK KWhere) (otoks wh) ++ group_toks (map xtoks gb) ++ clause_toks (QK KHaving) (otoks hv) ++ post))%nat /\
+    (1 <= hrank (from_toks (map twj_toks from) ++ clause_toks (QK KWhere) (otoks wh) ++ group_toks (map xtoks gb) ++
+                 clause_toks (QK KHaving) (otoks hv) ++ post))%nat.
   Proof.
     intro Hr.
-    assert (R6 : (4 <= hrank (clause_toks (QK KHaving) hv ++ post))%nat) by (apply hrank_clause; cbn [hrank]; lia).
-    assert (R5 : (3 <= hrank (group_toks gb ++ clause_toks (QK KHaving) hv ++ post))%nat)
-      by (destruct gb; cbn [group_toks app hrank]; lia).
-    assert (R4 : (2 <= hrank (clause_toks (QK KWhere) wh ++ group_toks gb ++ clause_toks (QK KHaving) hv ++ post))%nat)
+    assert (R6 : (4 <= hrank (clause_toks (QK KHaving) (otoks hv) ++ post))%nat) by (apply hrank_clause; cbn [hrank]; lia).
+    assert (R5 : (3 <= hrank (group_toks (map xtoks gb) ++ clause_toks (QK KHaving) (otoks hv) ++ post))%nat)
+      by (destruct gb; cbn [map group_toks app hrank]; lia).
+    assert (R4 : (2 <= hrank (clause_toks (QK KWhere) (otoks wh) ++ group_toks (map xtoks gb) ++ clause_toks (QK KHaving) (otoks hv) ++ post))%nat)
       by (apply hrank_clause; cbn [hrank]; lia).
     repeat split; auto. destruct from; cbn [map from_toks app hrank]; lia.
   Qed.
 
-  Lemma tail_ranks ob lim off post :
+  Lemma tail_ranks (ob : list oelem) lim off post :
     hrank post = 9%nat ->
-    (8 <= hrank (clause_toks (QK KOffset) off ++ post))%nat /\
-    (7 <= hrank (clause_toks (QK KLimit) lim ++ clause_toks (QK KOffset) off ++ post))%nat /\
-    (6 <= hrank (order_toks ob ++ clause_toks (QK KLimit) lim ++ clause_toks (QK KOffset) off ++ post))%nat.
+    (8 <= hrank (clause_toks (QK KOffset) (otoks off) ++ post))%nat /\
+    (7 <= hrank (clause_toks (QK KLimit) (otoks lim) ++ clause_toks (QK KOffset) (otoks off) ++ post))%nat /\
+    (6 <= hrank (order_toks (map oelem_toks ob) ++ clause_toks (QK KLimit) (otoks lim) ++ clause_toks (QK KOffset) (otoks off) ++ post))%nat.
   Proof.
     intro Hr.
-    assert (R3 : (8 <= hrank (clause_toks (QK KOffset) off ++ post))%nat) by (apply hrank_clause; cbn [hrank]; lia).
-    assert (R2 : (7 <= hrank (clause_toks (QK KLimit) lim ++ clause_toks (QK KOffset) off ++ post))%nat)
+    assert (R3 : (8 <= hrank (clause_toks (QK KOffset) (otoks off) ++ post))%nat) by (apply hrank_clause; cbn [hrank]; lia).
+    assert (R2 : (7 <= hrank (clause_toks (QK KLimit) (otoks lim) ++ clause_toks (QK KOffset) (otoks off) ++ post))%nat)
       by (apply hrank_clause; cbn [hrank]; lia).
-    repeat split; auto. destruct ob; cbn [order_toks app hrank]; lia.
+    repeat split; auto. destruct ob; cbn [map order_toks app hrank]; lia.
   Qed.
 
   Lemma select_rt dist items from wh gb hv post :
@@ -1341,12 +2204,16 @@ Section RoundTrip.
   Proof.
     intros Hw Hl Hr Hf. rewrite bwf_select in Hw. rewrite blevel_select in Hl. rewrite btoks_select in *.
     repeat (apply andb_true_iff in Hw; destruct Hw as [Hw ?]).
-    assert (Hlv : Forall (fun t => (twjlevel t <= f)%nat) from) by (apply maxl_map_le; lia).
+    assert (Hlv : Forall (fun t => (twjlevel t <= f)%nat) from) by (apply maxl_map_le; clear - Hl; lia).
+    assert (Hli : Forall (fun i => (ilevel i <= f)%nat) items) by (apply maxl_map_le; clear - Hl; lia).
+    assert (Hlg : Forall (fun x => (xlevel x <= f)%nat) gb) by (apply maxl_map_le; clear - Hl; lia).
+    assert (Hlw : (oxlevel wh <= f)%nat) by (clear - Hl; lia).
+    assert (Hlh : (oxlevel hv <= f)%nat) by (clear - Hl; lia).
     cbn [app parse_operand]. cbn [app] in Hf. apply qfrag_cons in Hf.
     repeat rewrite <- app_assoc in *.
-    set (T6 := clause_toks (QK KHaving) hv ++ post) in *.
-    set (T5 := group_toks gb ++ T6) in *.
-    set (T4 := clause_toks (QK KWhere) wh ++ T5) in *.
+    set (T6 := clause_toks (QK KHaving) (otoks hv) ++ post) in *.
+    set (T5 := group_toks (map xtoks gb) ++ T6) in *.
+    set (T4 := clause_toks (QK KWhere) (otoks wh) ++ T5) in *.
     set (T3 := from_toks (map twj_toks from) ++ T4) in *.
     set (ts2 := sepc (map item_toks items) ++ T3) in *.
     destruct (select_ranks from wh gb hv post Hr) as (R6 & R5 & R4 & R3).
@@ -1362,13 +2229,13 @@ Section RoundTrip.
     assert (Hpt : proj_trailing d && comma_rparen ts2 = false).
     { destruct (proj_trailing d) eqn:T; [|reflexivity]. cbn [andb]. eapply qfrag_trail; eauto. }
     rewrite Hpt.
-    unfold ts2 at 2. rewrite items_rt; [|exact Hne|assumption|exact F2|exact R3|apply fuel_commas]. cbn [bind].
+    unfold ts2 at 2. rewrite items_rt; [|exact Hne|assumption|exact Hli|exact F2|exact R3|apply fuel_commas]. cbn [bind].
     unfold T3. rewrite from_rt; [|assumption|assumption|exact Hlv|exact F3|exact R4]. cbn [bind].
-    assert (Hwh : optb (ewf bd) wh = true) by assumption.
-    assert (Hhv : optb (ewf bd) hv = true) by assumption.
-    unfold T4. rewrite (clause_rt (QK KWhere) 2 wh T5 eq_refl (le_S _ _ (le_n 1)) (or_introl eq_refl) Hwh F4 R5). cbn [bind].
-    unfold T5. rewrite group_rt; [|assumption|exact F5|exact R6]. cbn [bind].
-    unfold T6. rewrite (clause_rt (QK KHaving) 4 hv post eq_refl (le_S _ _ (le_S _ _ (le_S _ _ (le_n 1)))) (or_intror eq_refl) Hhv F6 Hr). reflexivity.
+    assert (Hwh : oxwf d wh = true) by assumption.
+    assert (Hhv : oxwf d hv = true) by assumption.
+    unfold T4. rewrite (clause_rt (QK KWhere) 2 wh T5 eq_refl (le_S _ _ (le_n 1)) (or_introl eq_refl) Hwh Hlw F4 R5). cbn [bind].
+    unfold T5. rewrite group_rt; [|assumption|exact Hlg|exact F5|exact R6]. cbn [bind].
+    unfold T6. rewrite (clause_rt (QK KHaving) 4 hv post eq_refl (le_S _ _ (le_S _ _ (le_S _ _ (le_n 1)))) (or_intror eq_refl) Hhv Hlh F6 Hr). reflexivity.
   Qed.
 
   Lemma nested_rt q post :
@@ -1376,8 +2243,54 @@ Section RoundTrip.
     parse_operand d recq rect (btoks (BNested q) ++ post) = Ok (BNested q, post).
   Proof.
     intros Hw Hl Hf. rewrite btoks_nested in *. cbn [app parse_operand] in *. rewrite <- app_assoc in *. cbn [app] in *.
-    rewrite Hq; auto. eapply qfrag_cons; eauto.
+    rewrite Hq; [reflexivity|exact Hw|exact Hl|reflexivity|eapply qfrag_cons; exact Hf].
   Qed.
+
+  (** ** VALUES and TABLE *)
+  Lemma vrow_rt r post :
+    vrow_wf d r = true -> (vrlevel r <= f)%nat -> qfrag d (vrow_toks r ++ post) = true ->
+    parse_vrow d recq (vrow_toks r ++ post) = Ok (r, post).
+  Proof.
+    destruct r as [l]. rewrite vrow_wf_row. cbn [vrlevel vrow_toks]. intros Hw Hlv Hf.
+    apply andb_true_iff in Hw. destruct Hw as [He Hw]. cbn [app parse_vrow]. rewrite <- app_assoc.
+    cbn [app] in Hf. apply qfrag_cons in Hf. rewrite <- app_assoc in Hf.
+    destruct l as [|x0 l0].
+    - cbn [map sepc app]. rewrite He. reflexivity.
+    - assert (Hx : xwf d x0 = true) by (cbn [forallb] in Hw; apply andb_true_iff in Hw; tauto).
+      remember (sepc (map xtoks (x0 :: l0)) ++ [QE TRParen] ++ post) as R eqn:ER.
+      assert (Hh : exists h r', R = h :: r' /\ xstart h = true).
+      { subst R. rewrite sepc_follow.
+        destruct (xtoks_head x0 (follow xtoks l0 ([QE TRParen] ++ post)) Hx) as (h & r' & E & Hh & _). eauto. }
+      destruct Hh as (h & r' & E & Hh). rewrite E.
+      destruct h as [t|k| |]; cbn [xstart] in Hh; try discriminate Hh.
+      + destruct t; cbn [starts] in Hh; try discriminate Hh; rewrite <- E; subst R;
+          (rewrite exprs_like_rt; [reflexivity|discriminate|exact Hw|apply maxl_map_le; exact Hlv|exact Hf|reflexivity|apply fuel_commas]).
+      + rewrite <- E; subst R.
+        rewrite exprs_like_rt; [reflexivity|discriminate|exact Hw|apply maxl_map_le; exact Hlv|exact Hf|reflexivity|apply fuel_commas].
+  Qed.
+
+  Lemma values_rt rows post :
+    bwf d (BValues rows) = true -> (blevel (BValues rows) <= S f)%nat -> (5 <= hrank post)%nat ->
+    qfrag d (btoks (BValues rows) ++ post) = true ->
+    parse_operand d recq rect (btoks (BValues rows) ++ post) = Ok (BValues rows, post).
+  Proof.
+    rewrite bwf_values. cbn [blevel btoks]. intros Hw Hl Hr Hf. apply andb_true_iff in Hw. destruct Hw as [Hne Hw].
+    cbn [app parse_operand]. cbn [app] in Hf. apply qfrag_cons in Hf.
+    rewrite comma_list_rt; [reflexivity|destruct rows; [discriminate Hne|discriminate]| | |apply fuel_commas].
+    - eapply (elems_ok_build _ _ _ (fun r => vrow_wf d r && Nat.leb (vrlevel r) f) (fol 5)); eauto using fol_comma.
+      + intros x post' Hx Hqf Hp. apply andb_true_iff in Hx. destruct Hx as [Hx1 Hx2]. apply PeanoNat.Nat.leb_le in Hx2.
+        apply vrow_rt; auto.
+      + assert (Hlv : Forall (fun r => (vrlevel r <= f)%nat) rows) by (apply maxl_map_le; clear - Hl; lia).
+        rewrite forallb_forall in *. intros x Hin. rewrite (Hw x Hin). rewrite Forall_forall in Hlv.
+        apply PeanoNat.Nat.leb_le. auto.
+      + apply Forall_forall. intros [l] Hin r. cbn [vrow_toks app]. apply notrail_lparen.
+      + right; exact Hr.
+    - eapply hrank_not_comma; [|exact Hr]. lia.
+  Qed.
+
+  Lemma table_rt n post :
+    bwf d (BTable n) = true -> parse_operand d recq rect (btoks (BTable n) ++ post) = Ok (BTable n, post).
+  Proof. intro Hw. cbn [btoks app parse_operand]. change (is_word n = true) in Hw. rewrite Hw. reflexivity. Qed.
 
   (** ** the set-operation loop *)
   Lemma bloop_stop g p e post :
@@ -1391,7 +2304,7 @@ Section RoundTrip.
   Lemma parse_quant_rt q b post : parse_quant (quant_toks q ++ btoks b ++ post) = (q, btoks b ++ post).
   Proof.
     destruct q; cbn [quant_toks app parse_quant]; try reflexivity.
-    destruct (btoks_head b) as (h & r & E & [H|H]); rewrite E; subst h; reflexivity.
+    destruct (btoks_head b) as (h & r & E & [H|[H|[H|H]]]); rewrite E; subst h; reflexivity.
   Qed.
 
   Lemma headpow_kw o r : headpow (setop_kw o :: r) = sp_pinned o.
@@ -1403,7 +2316,7 @@ Section RoundTrip.
     exists g, (length post < g)%nat /\
       body_step d recq recb rect p (btoks b ++ post) = bloop recb g p b post.
   Proof.
-    induction b as [dist items from wh gb hv|o q l IHl r IHr|q]; intros p post Hw Hl Hls Hrs Hr Hf.
+    induction b as [dist items from wh gb hv|o q l IHl r IHr|q|rows|n]; intros p post Hw Hl Hls Hrs Hr Hf.
     - exists (S (length post)). split; [lia|]. unfold body_step. rewrite select_rt; auto.
     - cbn [bwf] in Hw. repeat (apply andb_true_iff in Hw; destruct Hw as [Hw ?]).
       cbn [blevel] in Hl.
@@ -1424,6 +2337,8 @@ Section RoundTrip.
       apply qfrag_app in Hf. apply qfrag_cons in Hf. apply qfrag_app in Hf. exact Hf.
     - rewrite bwf_nested in Hw. rewrite blevel_nested in Hl.
       exists (S (length post)). split; [lia|]. unfold body_step. rewrite nested_rt; auto. lia.
+    - exists (S (length post)). split; [lia|]. unfold body_step. rewrite values_rt; auto.
+    - exists (S (length post)). split; [lia|]. unfold body_step. rewrite table_rt; auto.
   Qed.
 
   Lemma body_rt b p post :
@@ -1437,33 +2352,33 @@ Section RoundTrip.
   Qed.
 
   (** ** LIMIT / OFFSET *)
-  Lemma opt_all_yield e r : opt_tok (QE (TKw KAll)) (qe (yield e) ++ r) = (false, qe (yield e) ++ r).
-  Proof. destruct (yield_head e) as (t & tl & E & St). rewrite E. apply opt_start_miss; auto. Qed.
+  Lemma opt_all_x x r : xwf d x = true -> opt_tok (QE (TKw KAll)) (xtoks x ++ r) = (false, xtoks x ++ r).
+  Proof. intro Hw. destruct (xtoks_head x r Hw) as (h & r' & E & Hh & _). rewrite E. apply opt_start_miss; auto. Qed.
 
   Lemma limit_iter_first lim off post :
-    optb (ewf bd) lim = true -> optb (ewf bd) off = true -> ender post = true ->
-    qfrag d (clause_toks (QK KLimit) lim ++ clause_toks (QK KOffset) off ++ post) = true ->
-    limit_iter d (None, None) (clause_toks (QK KLimit) lim ++ clause_toks (QK KOffset) off ++ post) = Ok ((lim, off), post).
+    oxwf d lim = true -> oxwf d off = true -> (oxlevel lim <= f)%nat -> (oxlevel off <= f)%nat -> ender post = true ->
+    qfrag d (clause_toks (QK KLimit) (otoks lim) ++ clause_toks (QK KOffset) (otoks off) ++ post) = true ->
+    limit_iter d recq (None, None) (clause_toks (QK KLimit) (otoks lim) ++ clause_toks (QK KOffset) (otoks off) ++ post) = Ok ((lim, off), post).
   Proof.
-    intros Hl Ho He Hf. pose proof (ender_hrank _ He) as Hr.
-    assert (R3 : (8 <= hrank (clause_toks (QK KOffset) off ++ post))%nat) by (apply hrank_clause; cbn [hrank]; lia).
-    assert (F3 : qfrag d (clause_toks (QK KOffset) off ++ post) = true) by (eapply qfrag_app; exact Hf).
-    unfold limit_iter. destruct lim as [e|]; cbn [clause_toks optb app] in *.
-    - rewrite (ewf_ptoks _ _ Hl) in *. rewrite opt_tok_hit by reflexivity. rewrite opt_all_yield.
-      rewrite pex_rt; [|assumption|eapply qfrag_cons; eauto|apply hrank_estop; lia]. cbn [bind].
-      destruct off as [e2|]; cbn [clause_toks optb app] in *.
-      + rewrite (ewf_ptoks _ _ Ho) in *. rewrite opt_tok_hit by reflexivity.
-        rewrite pex_rt; [|assumption|eapply qfrag_cons; eauto|apply hrank_estop; lia]. reflexivity.
+    intros Hl Ho Hll Hlo He Hf. pose proof (ender_hrank _ He) as Hr.
+    assert (R3 : (8 <= hrank (clause_toks (QK KOffset) (otoks off) ++ post))%nat) by (apply hrank_clause; cbn [hrank]; lia).
+    assert (F3 : qfrag d (clause_toks (QK KOffset) (otoks off) ++ post) = true) by (eapply qfrag_app; exact Hf).
+    unfold limit_iter. destruct lim as [e|]; cbn [clause_toks otoks option_map oxwf oxlevel app] in *.
+    - rewrite opt_tok_hit by reflexivity. rewrite opt_all_x by exact Hl.
+      rewrite pex_rt; [|assumption|assumption|eapply qfrag_cons; eauto|apply hrank_estop; lia]. cbn [bind].
+      destruct off as [e2|]; cbn [clause_toks otoks option_map oxwf oxlevel app] in *.
+      + rewrite opt_tok_hit by reflexivity.
+        rewrite pex_rt; [|assumption|assumption|eapply qfrag_cons; eauto|apply hrank_estop; lia]. reflexivity.
       + rewrite opt_offset_miss by lia. cbn [bind]. rewrite opt_comma_miss by lia. rewrite andb_false_r. reflexivity.
     - rewrite opt_limit_miss by lia. cbn [bind].
-      destruct off as [e2|]; cbn [clause_toks optb app] in *.
-      + rewrite (ewf_ptoks _ _ Ho) in *. rewrite opt_tok_hit by reflexivity.
-        rewrite pex_rt; [|assumption|eapply qfrag_cons; eauto|apply hrank_estop; lia]. reflexivity.
+      destruct off as [e2|]; cbn [clause_toks otoks option_map oxwf oxlevel app] in *.
+      + rewrite opt_tok_hit by reflexivity.
+        rewrite pex_rt; [|assumption|assumption|eapply qfrag_cons; eauto|apply hrank_estop; lia]. reflexivity.
       + rewrite opt_offset_miss by lia. reflexivity.
   Qed.
 
   Lemma limit_iter_again lim off post :
-    ender post = true -> limit_iter d (lim, off) post = Ok ((lim, off), post).
+    ender post = true -> limit_iter d recq (lim, off) post = Ok ((lim, off), post).
   Proof.
     intro He. pose proof (ender_hrank _ He) as Hr. unfold limit_iter.
     destruct lim as [l|]; [|rewrite opt_limit_miss by lia]; cbn [bind];
@@ -1494,7 +2409,7 @@ Section RoundTrip.
     cte_wf d c = true -> (clevel c <= f)%nat -> qfrag d (cte_toks c ++ post) = true -> cfol post ->
     parse_cte d recq (cte_toks c ++ post) = Ok (c, post).
   Proof.
-    destruct c as [n cols q]. cbn [cte_wf clevel cte_toks]. intros Hw Hl Hf Hp.
+    destruct c as [n cols q]. rewrite cte_wf_cte. cbn [clevel cte_toks]. intros Hw Hl Hf Hp.
     apply andb_true_iff in Hw. destruct Hw as [Hw Hqw]. apply andb_true_iff in Hw. destruct Hw as [Hn' Hc].
     unfold parse_cte. cbn [app]. unfold parse_ident at 1. rewrite Hn'. cbn [bind].
     cbn [app] in Hf. apply qfrag_cons in Hf.
@@ -1510,7 +2425,7 @@ Section RoundTrip.
 
   Lemma notrail_cte c r : cte_wf d c = true -> later_ok d (cte_name c) = true -> notrail (trail_all d) (cte_toks c ++ r).
   Proof.
-    destruct c as [n cols q]. cbn [cte_wf cte_name cte_toks app]. intros Hw Hl.
+    destruct c as [n cols q]. rewrite cte_wf_cte. cbn [cte_name cte_toks app]. intros Hw Hl.
     apply andb_true_iff in Hw. destruct Hw as [Hw _]. apply andb_true_iff in Hw. destruct Hw as [Hn' _].
     apply notrail_word; assumption.
   Qed.
@@ -1520,8 +2435,8 @@ Section RoundTrip.
     qfrag d (wtoks w ++ X) = true -> bstart X = true ->
     parse_with d recq (wtoks w ++ X) = Ok (w, X).
   Proof.
-    intros Hw Hl Hf Hx. destruct w as [[rc ctes]|]; cbn [wwf wtoks with_toks with_wf wlevel] in *.
-    - apply andb_true_iff in Hw. destruct Hw as [Hnm Hcw]. unfold with_names_ok in Hnm.
+    intros Hw Hl Hf Hx. destruct w as [[rc ctes]|]; cbn [wwf wtoks with_toks wlevel] in *.
+    - rewrite with_wf_with in Hw. apply andb_true_iff in Hw. destruct Hw as [Hnm Hcw]. unfold with_names_ok in Hnm.
       destruct ctes as [|c0 cr]; [discriminate|]. apply andb_true_iff in Hnm. destruct Hnm as [Hrec Hlater].
       cbn [app parse_with]. rewrite <- app_assoc. cbn [app] in Hf. apply qfrag_cons in Hf. rewrite <- app_assoc in Hf.
       assert (Hopt : opt_tok (QK KRecursive) (rec_toks rc ++ sepc (map cte_toks (c0 :: cr)) ++ X)
@@ -1549,14 +2464,19 @@ Section RoundTrip.
     qwf d q = true -> (qlevel q <= S f)%nat -> ender post = true -> qfrag d (qtoks q ++ post) = true ->
     query_step d recq recb rect (qtoks q ++ post) = Ok (q, post).
   Proof.
-    destruct q as [w b ob lim off]. rewrite qwf_query, qtoks_query. cbn [qlevel]. intros Hw Hl He Hf.
+    destruct q as [w b ob lim off]. rewrite qwf_query, qtoks_query, qlevel_query. intros Hw Hl He Hf.
     apply andb_true_iff in Hw. destruct Hw as [Hw Ht']. apply andb_true_iff in Hw. destruct Hw as [Hww Hbw].
     unfold tail_wf in Ht'.
     apply andb_true_iff in Ht'. destruct Ht' as [Ht' Hoff]. apply andb_true_iff in Ht'. destruct Ht' as [Hob Hlim].
+    assert (Hlo : Forall (fun o => (oelevel o <= f)%nat) ob) by (apply maxl_map_le; clear - Hl; lia).
+    assert (Lw : match w with Some x => (wlevel x <= f)%nat | None => True end) by (clear - Hl; destruct w; [lia|exact I]).
+    assert (Lb : (blevel b <= S f)%nat) by (clear - Hl; lia).
+    assert (Ll : (oxlevel lim <= f)%nat) by (clear - Hl; lia).
+    assert (Lo : (oxlevel off <= f)%nat) by (clear - Hl; lia). clear Hl.
     pose proof (ender_hrank _ He) as Hr. repeat rewrite <- app_assoc in *.
-    set (T3 := clause_toks (QK KOffset) off ++ post) in *.
-    set (T2 := clause_toks (QK KLimit) lim ++ T3) in *.
-    set (T1 := order_toks ob ++ T2) in *.
+    set (T3 := clause_toks (QK KOffset) (otoks off) ++ post) in *.
+    set (T2 := clause_toks (QK KLimit) (otoks lim) ++ T3) in *.
+    set (T1 := order_toks (map oelem_toks ob) ++ T2) in *.
     destruct (tail_ranks ob lim off post Hr) as (R3 & R2 & R1).
     change (8 <= hrank T3)%nat in R3. change (7 <= hrank T2)%nat in R2. change (6 <= hrank T1)%nat in R1.
     assert (F0 : qfrag d (btoks b ++ T1) = true) by (eapply qfrag_app; exact Hf).
@@ -1564,12 +2484,12 @@ Section RoundTrip.
     assert (F2 : qfrag d T2 = true) by (eapply qfrag_app; exact F1).
     assert (H0 : headpow T1 = 0) by (unfold headpow; rewrite set_op_miss by exact R1; reflexivity).
     unfold query_step.
-    rewrite with_rt; [|exact Hww|destruct w; [lia|exact I]|exact Hf|apply btoks_bstart]. cbn [bind].
+    rewrite with_rt; [|exact Hww|exact Lw|exact Hf|apply btoks_bstart]. cbn [bind].
     rewrite (d_U0 d Hd).
-    rewrite body_rt; [|assumption|lia|apply blspine_gtb_0|rewrite H0; apply N.le_refl|rewrite H0; apply brspine_geb_0|
+    rewrite body_rt; [|assumption|exact Lb|apply blspine_gtb_0|rewrite H0; apply N.le_refl|rewrite H0; apply brspine_geb_0|
                       apply (PeanoNat.Nat.le_trans _ 6); [repeat constructor|exact R1]|exact F0].
-    cbn [bind]. unfold T1. rewrite order_rt; [|assumption|exact F1|exact R2]. cbn [bind].
-    unfold T2, T3. rewrite limit_iter_first; [|assumption|assumption|exact He|exact F2]. cbn [bind].
+    cbn [bind]. unfold T1. rewrite order_rt; [|assumption|exact Hlo|exact F1|exact R2]. cbn [bind].
+    unfold T2, T3. rewrite limit_iter_first; [|assumption|assumption|exact Ll|exact Lo|exact He|exact F2]. cbn [bind].
     rewrite limit_iter_again by exact He. cbn [bind fst snd].
     rewrite opt_by_miss; [|rewrite Hr; repeat constructor]. cbn [fst]. rewrite !andb_false_r. reflexivity.
   Qed.
@@ -1588,9 +2508,9 @@ Section RoundTrip.
 
   Lemma inert_tail w b rest :
     inert rest = true ->
-    bind (parse_order_by d rest) (fun '(ob, ts2) =>
-    bind (limit_iter d (None, None) ts2) (fun '(st1, ts3) =>
-    bind (limit_iter d st1 ts3) (fun '(st2, ts4) =>
+    bind (parse_order_by d recq rest) (fun '(ob, ts2) =>
+    bind (limit_iter d recq (None, None) ts2) (fun '(st1, ts3) =>
+    bind (limit_iter d recq st1 ts3) (fun '(st2, ts4) =>
       if limit_by d && (is_some (fst st2) && fst (opt_tok (QK KBy) ts4)) then OutOfFragment
       else Ok (Query w b ob (fst st2) (snd st2), ts4)))) = Ok (Query w b [] None None, rest).
   Proof.
@@ -1618,6 +2538,7 @@ Section RoundTrip.
   Proof.
     intros Hw Hfi Hl Hbd Hf. destruct r as [n a|q a|x a]; cbn [tref_wf tref_toks tlevel first_ok] in *.
     - apply andb_true_iff in Hw. destruct Hw as [Hw _]. unfold name_ok in Hw. apply andb_true_iff in Hw. destruct Hw as [Hw _].
+      apply andb_true_iff in Hw. destruct Hw as [Hw _].
       apply negb_true_iff in Hfi. cbn [app]. rewrite query_step_word by assumption. exact I.
     - apply andb_true_iff in Hw. destruct Hw as [Hqw Ha]. cbn [app] in *. rewrite <- app_assoc in *. cbn [app] in *.
       assert (Hin : inert (alias_toks a ++ post) = true).
@@ -1641,7 +2562,7 @@ End RoundTrip.
 
 (** * Tying the knot: all nesting levels *)
 Lemma blevel_pos b : (1 <= blevel b)%nat.
-Proof. induction b as [dist items from wh gb hv|o q l IHl r IHr|q]; [rewrite blevel_select|cbn [blevel]|rewrite blevel_nested]; lia. Qed.
+Proof. induction b as [dist items from wh gb hv|o q l IHl r IHr|q|rows|n]; [rewrite blevel_select|cbn [blevel]|rewrite blevel_nested|cbn [blevel]|cbn [blevel]]; lia. Qed.
 Lemma qlevel_pos q : (1 <= qlevel q)%nat.
 Proof. destruct q as [w b ob lim off]. cbn [qlevel]. pose proof (blevel_pos b). lia. Qed.
 
